@@ -1,6 +1,2020 @@
-//! C20 — not implemented yet.
+//! C20 — Registries behave as the sets and maps they represent (first half: the RWA
+//! identity-side registries; the second half lives in `c20b.rs`).
+//!
+//! Four sub-checks, each a (harness contract, generator, reference model) triple:
+//! `cti` (claim topics & trusted issuers), `issuer-keys` (claim-issuer signing keys),
+//! `irs` (identity registry storage), `claims` (identity claims).
+//! Every mutation goes through a real top-level invocation of the harness contract (so a
+//! refused call is rolled back by the host); after EVERY step every getter of the registry
+//! is evaluated for every element of the (small) universe — present or not — by calling the
+//! library's public getter functions inside one `as_contract` frame, each wrapped in
+//! `catch_unwind` so that "the getter fails for an absent element" is an observation.
+//! Enumeration ORDER is never asserted: lists are compared as sorted multisets.
+
+use crate::contracts::c20::{cti::Cti, ident::Ident, irs::Irs, issuer_keys::IssuerKeys, issuer_mock::IssuerMock, registry_mock::RegistryMock};
 use crate::engine::*;
+use crate::envx::{self, call};
+use crate::gen::pick;
+use proptest::prelude::*;
+use serde::{Deserialize, Serialize};
+use soroban_sdk::testutils::Address as _;
+use soroban_sdk::xdr::ScVal;
+use soroban_sdk::{Address, Bytes, BytesN, Env, IntoVal, Map, String as SString, Symbol, TryFromVal, Val, Vec as SVec};
+use std::collections::{BTreeMap, BTreeSet};
+use std::panic::{catch_unwind, AssertUnwindSafe};
+
+// ------------------------------------------------------------------ shared: selectors
+
+/// position inside the current enumeration of present elements
+#[derive(Clone, Copy, Debug, Serialize, Deserialize, PartialEq)]
+pub enum Pos {
+    First,
+    Last,
+    /// the element that now sits where the most recently removed element sat
+    Swapped,
+    /// the only element if there is exactly one, otherwise the middle one
+    Only,
+    Idx(u16),
+}
+/// state-relative element selector, resolved against the model at execution time
+#[derive(Clone, Copy, Debug, Serialize, Deserialize, PartialEq)]
+pub enum Sel {
+    Existing(Pos),
+    Absent(u16),
+    RemovedBefore(u16),
+}
+
+fn pos_strategy() -> BoxedStrategy<Pos> {
+    prop_oneof![
+        2 => Just(Pos::First),
+        2 => Just(Pos::Last),
+        3 => Just(Pos::Swapped),
+        2 => Just(Pos::Only),
+        4 => any::<u16>().prop_map(Pos::Idx),
+    ]
+    .boxed()
+}
+fn sel_strategy(we: u32, wa: u32, wr: u32) -> BoxedStrategy<Sel> {
+    prop_oneof![
+        we => pos_strategy().prop_map(Sel::Existing),
+        wa => any::<u16>().prop_map(Sel::Absent),
+        wr => any::<u16>().prop_map(Sel::RemovedBefore),
+    ]
+    .boxed()
+}
+
+/// bookkeeping for `RemovedBefore` / `Swapped` and the list non-triviality class
+#[derive(Default, Clone, Debug)]
+struct Track {
+    removed: BTreeSet<usize>,
+    swapped_pos: Option<usize>,
+    /// position of the last removal if it hit an element that was neither first nor last
+    mid_pos: Option<usize>,
+}
+impl Track {
+    /// record a successful removal of the element at enumeration position `p` of `len`; returns
+    /// true when this removal hit the element that had moved into the place of a middle removal
+    fn on_removed(&mut self, idx: usize, p: Option<usize>, len: usize) -> bool {
+        self.removed.insert(idx);
+        let hit = p.is_some() && p == self.mid_pos;
+        self.swapped_pos = p;
+        self.mid_pos = match p {
+            Some(p) if p > 0 && p + 1 < len => Some(p),
+            _ => None,
+        };
+        hit
+    }
+}
+
+fn pick_pos(p: Pos, order: &[usize], tr: &Track) -> usize {
+    let n = order.len();
+    match p {
+        Pos::First => order[0],
+        Pos::Last => order[n - 1],
+        Pos::Swapped => tr.swapped_pos.and_then(|i| order.get(i).copied()).unwrap_or(order[n - 1]),
+        Pos::Only => order[n / 2],
+        Pos::Idx(s) => order[pick(s, n)],
+    }
+}
+
+/// `order`: universe indices of the present elements in enumeration order; `n_base`: the
+/// selectable universe is `0..n_base` (fillers of capacity scenarios have larger indices and
+/// are reachable through `Existing` only).
+fn resolve(sel: Sel, order: &[usize], n_base: usize, tr: &Track) -> usize {
+    match sel {
+        Sel::Existing(p) => {
+            if order.is_empty() {
+                pick(0, n_base)
+            } else {
+                pick_pos(p, order, tr)
+            }
+        }
+        Sel::Absent(s) => {
+            let c: Vec<usize> = (0..n_base).filter(|i| !order.contains(i)).collect();
+            if c.is_empty() {
+                order[pick(s, order.len())]
+            } else {
+                c[pick(s, c.len())]
+            }
+        }
+        Sel::RemovedBefore(s) => {
+            let c: Vec<usize> = tr.removed.iter().copied().filter(|i| *i < n_base && !order.contains(i)).collect();
+            if c.is_empty() {
+                resolve(Sel::Absent(s), order, n_base, tr)
+            } else {
+                c[pick(s, c.len())]
+            }
+        }
+    }
+}
+
+fn guarded<T>(f: impl FnOnce() -> T) -> Option<T> {
+    catch_unwind(AssertUnwindSafe(f)).ok()
+}
+fn sorted<T: Ord + Clone>(v: &[T]) -> Vec<T> {
+    let mut w = v.to_vec();
+    w.sort();
+    w
+}
+const UNK: usize = usize::MAX;
+/// `envx::new_env` plus: the per-invocation mainnet resource limits (footprint <= 100 entries ...) that
+/// soroban-sdk 25 enforces in tests are switched off — one observation frame reads the whole registry
+/// (DESIGN §6: resource limits are not C20's subject, only the library's explicit counters are).
+fn new_env() -> Env {
+    let e = envx::new_env(100, envx::BIG_TTL);
+    e.cost_estimate().disable_resource_limits();
+    // host diagnostics (event log + backtrace attached to every error) make each refused getter ~100x more
+    // expensive; they only enrich error text, which no oracle reads.  `Default` is `DiagnosticLevel::None`.
+    if std::env::var("VERIF_DEBUG").is_err() {
+        let _ = e.host().set_diagnostic_level(Default::default());
+    }
+    e
+}
+
+// ------------------------------------------------------------------ 1. claim topics & trusted issuers
+
+use stellar_tokens::rwa::claim_topics_and_issuers::{storage as ctis, MAX_CLAIM_TOPICS, MAX_ISSUERS};
+
+const CTI_TOPICS: [u32; 6] = [1, 2, 3, 7, 42, 4_000_000_000];
+const CTI_NT: usize = 6;
+const CTI_NI: usize = 5;
+fn cti_topic_value(i: usize) -> u32 {
+    if i < CTI_NT {
+        CTI_TOPICS[i]
+    } else {
+        100 + (i - CTI_NT) as u32
+    }
+}
+
+/// a topic list argument, resolved against the present topics
+#[derive(Clone, Debug, Serialize, Deserialize)]
+pub enum TList {
+    /// subset of the present topics (bit i = i-th present topic); never empty when a topic exists
+    Mask(u16),
+    Empty,
+    All,
+    /// a subset with one element repeated
+    Dup(u16, u16),
+    /// a subset plus one topic that is not registered
+    WithAbsent(u16, u16),
+    One(Sel),
+}
+
+#[derive(Clone, Debug, Serialize, Deserialize)]
+pub enum CtiOp {
+    AddTopic(Sel),
+    RemoveTopic(Sel),
+    AddIssuer(Sel, TList),
+    RemoveIssuer(Sel),
+    UpdateIssuer(Sel, TList),
+}
+#[derive(Clone, Debug, Serialize, Deserialize)]
+pub struct CtiCase {
+    /// capacity scenario: pre-fill with filler topics up to `MAX_CLAIM_TOPICS - d`
+    pub fill_topics: Option<u8>,
+    /// capacity scenario: pre-fill with filler issuers up to `MAX_ISSUERS - d`
+    pub fill_issuers: Option<u8>,
+    pub ops: Vec<CtiOp>,
+}
+
+fn tlist_strategy() -> BoxedStrategy<TList> {
+    prop_oneof![
+        8 => any::<u16>().prop_map(TList::Mask),
+        1 => Just(TList::Empty),
+        2 => Just(TList::All),
+        1 => (any::<u16>(), any::<u16>()).prop_map(|(a, b)| TList::Dup(a, b)),
+        1 => (any::<u16>(), any::<u16>()).prop_map(|(a, b)| TList::WithAbsent(a, b)),
+        2 => sel_strategy(4, 1, 1).prop_map(TList::One),
+    ]
+    .boxed()
+}
+fn cti_op_strategy(capacity: bool) -> BoxedStrategy<CtiOp> {
+    if capacity {
+        prop_oneof![
+            5 => sel_strategy(1, 8, 1).prop_map(CtiOp::AddTopic),
+            1 => sel_strategy(6, 1, 1).prop_map(CtiOp::RemoveTopic),
+            5 => (sel_strategy(1, 8, 1), tlist_strategy()).prop_map(|(s, l)| CtiOp::AddIssuer(s, l)),
+            1 => sel_strategy(6, 1, 1).prop_map(CtiOp::RemoveIssuer),
+            1 => (sel_strategy(6, 1, 1), tlist_strategy()).prop_map(|(s, l)| CtiOp::UpdateIssuer(s, l)),
+        ]
+        .boxed()
+    } else {
+        prop_oneof![
+            4 => sel_strategy(1, 5, 2).prop_map(CtiOp::AddTopic),
+            3 => sel_strategy(6, 1, 1).prop_map(CtiOp::RemoveTopic),
+            5 => (sel_strategy(1, 5, 2), tlist_strategy()).prop_map(|(s, l)| CtiOp::AddIssuer(s, l)),
+            3 => sel_strategy(6, 1, 1).prop_map(CtiOp::RemoveIssuer),
+            4 => (sel_strategy(7, 1, 1), tlist_strategy()).prop_map(|(s, l)| CtiOp::UpdateIssuer(s, l)),
+        ]
+        .boxed()
+    }
+}
+fn cti_strategy(_tier: Tier) -> BoxedStrategy<CtiCase> {
+    let ordinary = proptest::collection::vec(cti_op_strategy(false), 1..=50).prop_map(|ops| CtiCase { fill_topics: None, fill_issuers: None, ops });
+    let fill = prop_oneof![Just((Some(1u8), None)), Just((Some(0u8), None)), Just((Some(2u8), None)), Just((None, Some(1u8))), Just((None, Some(0u8))), Just((None, Some(2u8))), Just((Some(1u8), Some(1u8)))];
+    let capacity = (fill, proptest::collection::vec(cti_op_strategy(true), 1..=12)).prop_map(|((ft, fi), ops)| CtiCase { fill_topics: ft, fill_issuers: fi, ops });
+    prop_oneof![5 => ordinary, 1 => capacity].boxed()
+}
+
+struct CtiX {
+    e: Env,
+    c: Address,
+    op: Address,
+    nt: usize,
+    issuers: Vec<Address>,
+}
+impl CtiX {
+    fn tidx(&self, v: u32) -> usize {
+        (0..self.nt).find(|&i| cti_topic_value(i) == v).unwrap_or(UNK)
+    }
+    fn iidx(&self, a: &Address) -> usize {
+        self.issuers.iter().position(|x| x == a).unwrap_or(UNK)
+    }
+    fn tvec(&self, l: &[usize]) -> SVec<u32> {
+        let mut v = SVec::new(&self.e);
+        for i in l {
+            v.push_back(cti_topic_value(*i));
+        }
+        v
+    }
+}
+
+#[derive(Default, Clone, Debug)]
+struct CtiModel {
+    topics: BTreeSet<usize>,
+    issuers: BTreeMap<usize, BTreeSet<usize>>,
+}
+
+#[derive(Clone, Debug)]
+enum CtiCall {
+    AddTopic(usize),
+    RemoveTopic(usize),
+    AddIssuer(usize, Vec<usize>),
+    RemoveIssuer(usize),
+    UpdateIssuer(usize, Vec<usize>),
+}
+impl CtiCall {
+    fn name(&self) -> &'static str {
+        match self {
+            CtiCall::AddTopic(_) => "add_claim_topic",
+            CtiCall::RemoveTopic(_) => "remove_claim_topic",
+            CtiCall::AddIssuer(..) => "add_trusted_issuer",
+            CtiCall::RemoveIssuer(_) => "remove_trusted_issuer",
+            CtiCall::UpdateIssuer(..) => "update_issuer_claim_topics",
+        }
+    }
+}
+fn cti_list_reason(m: &CtiModel, l: &[usize]) -> Option<&'static str> {
+    if l.is_empty() {
+        return Some("empty-topic-list");
+    }
+    if l.len() > MAX_CLAIM_TOPICS as usize {
+        return Some("oversized-topic-list");
+    }
+    let s: BTreeSet<usize> = l.iter().copied().collect();
+    if s.len() != l.len() {
+        return Some("duplicate-in-topic-list");
+    }
+    if !s.iter().all(|t| m.topics.contains(t)) {
+        return Some("unknown-topic-in-list");
+    }
+    None
+}
+/// Err(reason) = the documented behaviour is to refuse
+fn cti_predict(m: &CtiModel, c: &CtiCall) -> Result<(), &'static str> {
+    match c {
+        CtiCall::AddTopic(t) => {
+            if m.topics.contains(t) {
+                Err("duplicate")
+            } else if m.topics.len() >= MAX_CLAIM_TOPICS as usize {
+                Err("limit")
+            } else {
+                Ok(())
+            }
+        }
+        CtiCall::RemoveTopic(t) => {
+            if m.topics.contains(t) {
+                Ok(())
+            } else {
+                Err("absent")
+            }
+        }
+        CtiCall::AddIssuer(i, l) => {
+            if let Some(r) = cti_list_reason(m, l) {
+                Err(r)
+            } else if m.issuers.contains_key(i) {
+                Err("duplicate")
+            } else if m.issuers.len() >= MAX_ISSUERS as usize {
+                Err("limit")
+            } else {
+                Ok(())
+            }
+        }
+        CtiCall::RemoveIssuer(i) => {
+            if m.issuers.contains_key(i) {
+                Ok(())
+            } else {
+                Err("absent")
+            }
+        }
+        CtiCall::UpdateIssuer(i, l) => {
+            if let Some(r) = cti_list_reason(m, l) {
+                Err(r)
+            } else if !m.issuers.contains_key(i) {
+                Err("absent")
+            } else {
+                Ok(())
+            }
+        }
+    }
+}
+fn cti_at_limit(m: &CtiModel, c: &CtiCall) -> bool {
+    match c {
+        CtiCall::AddTopic(_) => m.topics.len() + 1 == MAX_CLAIM_TOPICS as usize,
+        CtiCall::AddIssuer(..) => m.issuers.len() + 1 == MAX_ISSUERS as usize,
+        _ => false,
+    }
+}
+fn cti_apply(m: &mut CtiModel, c: &CtiCall) {
+    match c {
+        CtiCall::AddTopic(t) => {
+            m.topics.insert(*t);
+        }
+        CtiCall::RemoveTopic(t) => {
+            m.topics.remove(t);
+            for ts in m.issuers.values_mut() {
+                ts.remove(t);
+            }
+        }
+        CtiCall::AddIssuer(i, l) | CtiCall::UpdateIssuer(i, l) => {
+            m.issuers.insert(*i, l.iter().copied().collect());
+        }
+        CtiCall::RemoveIssuer(i) => {
+            m.issuers.remove(i);
+        }
+    }
+}
+fn cti_invoke(x: &CtiX, c: &CtiCall) -> Result<Val, String> {
+    let e = &x.e;
+    match c {
+        CtiCall::AddTopic(t) => call(e, &x.c, "add_claim_topic", args![e; cti_topic_value(*t), x.op.clone()]),
+        CtiCall::RemoveTopic(t) => call(e, &x.c, "remove_claim_topic", args![e; cti_topic_value(*t), x.op.clone()]),
+        CtiCall::AddIssuer(i, l) => call(e, &x.c, "add_trusted_issuer", args![e; x.issuers[*i].clone(), x.tvec(l), x.op.clone()]),
+        CtiCall::RemoveIssuer(i) => call(e, &x.c, "remove_trusted_issuer", args![e; x.issuers[*i].clone(), x.op.clone()]),
+        CtiCall::UpdateIssuer(i, l) => call(e, &x.c, "update_issuer_claim_topics", args![e; x.issuers[*i].clone(), x.tvec(l), x.op.clone()]),
+    }
+}
+
+/// everything the registry answers, for every element of the universe
+#[derive(Clone, Debug, PartialEq)]
+struct CtiObs {
+    topics_order: Option<Vec<usize>>,
+    issuers_order: Option<Vec<usize>>,
+    topic_issuers: Vec<Option<Vec<usize>>>,
+    issuer_topics: Vec<Option<Vec<usize>>>,
+    trusted: Vec<Option<bool>>,
+    has: Vec<Vec<Option<bool>>>,
+    all: Option<Vec<(usize, Vec<usize>)>>,
+}
+impl CtiObs {
+    /// order-insensitive image used for "a refused call changes nothing"
+    fn canon(&self) -> CtiObs {
+        let mut c = self.clone();
+        c.topics_order = c.topics_order.map(|v| sorted(&v));
+        c.issuers_order = c.issuers_order.map(|v| sorted(&v));
+        c
+    }
+}
+fn cti_observe(x: &CtiX) -> CtiObs {
+    let e = &x.e;
+    let ni = x.issuers.len();
+    e.as_contract(&x.c, || {
+        let conv_i = |v: SVec<Address>| -> Vec<usize> { v.iter().map(|a| x.iidx(&a)).collect() };
+        let conv_t = |v: SVec<u32>| -> Vec<usize> { v.iter().map(|t| x.tidx(t)).collect() };
+        let topics_order = guarded(|| ctis::get_claim_topics(e)).map(conv_t);
+        let issuers_order = guarded(|| ctis::get_trusted_issuers(e)).map(conv_i);
+        let topic_issuers = (0..x.nt).map(|t| guarded(|| ctis::get_claim_topic_issuers(e, cti_topic_value(t))).map(|v| sorted(&conv_i(v)))).collect();
+        let issuer_topics = (0..ni).map(|i| guarded(|| ctis::get_trusted_issuer_claim_topics(e, &x.issuers[i])).map(|v| sorted(&conv_t(v)))).collect();
+        let trusted = (0..ni).map(|i| guarded(|| ctis::is_trusted_issuer(e, &x.issuers[i]))).collect();
+        let has = (0..ni).map(|i| (0..x.nt).map(|t| guarded(|| ctis::has_claim_topic(e, &x.issuers[i], cti_topic_value(t)))).collect()).collect();
+        let all = guarded(|| ctis::get_claim_topics_and_issuers(e)).map(|m: Map<u32, SVec<Address>>| {
+            let mut v: Vec<(usize, Vec<usize>)> = m.iter().map(|(t, is)| (x.tidx(t), sorted(&conv_i(is)))).collect();
+            v.sort();
+            v
+        });
+        CtiObs { topics_order, issuers_order, topic_issuers, issuer_topics, trusted, has, all }
+    })
+}
+fn cti_check(o: &CtiObs, m: &CtiModel, f: &str) -> R {
+    let sig = |clause: &str| format!("C20/claim_topics_and_issuers.{f}/{clause}");
+    let mt: Vec<usize> = m.topics.iter().copied().collect();
+    let mi: Vec<usize> = m.issuers.keys().copied().collect();
+    ensure!(o.topics_order.as_ref().map(|v| sorted(v)) == Some(mt.clone()), sig("get_claim_topics-mismatch"), "get_claim_topics = {:?}, model {:?}", o.topics_order, mt);
+    ensure!(o.issuers_order.as_ref().map(|v| sorted(v)) == Some(mi.clone()), sig("get_trusted_issuers-mismatch"), "get_trusted_issuers = {:?}, model {:?}", o.issuers_order, mi);
+    for (t, got) in o.topic_issuers.iter().enumerate() {
+        let want: Option<Vec<usize>> = if m.topics.contains(&t) { Some(m.issuers.iter().filter(|(_, ts)| ts.contains(&t)).map(|(i, _)| *i).collect()) } else { None };
+        ensure!(*got == want, sig("get_claim_topic_issuers-mismatch"), "get_claim_topic_issuers(topic #{t}) = {:?}, model {:?} (None = refused)", got, want);
+    }
+    for (i, got) in o.issuer_topics.iter().enumerate() {
+        let want: Option<Vec<usize>> = m.issuers.get(&i).map(|ts| ts.iter().copied().collect());
+        ensure!(*got == want, sig("get_trusted_issuer_claim_topics-mismatch"), "get_trusted_issuer_claim_topics(issuer #{i}) = {:?}, model {:?} (None = refused)", got, want);
+        ensure!(o.trusted[i] == Some(m.issuers.contains_key(&i)), sig("is_trusted_issuer-mismatch"), "is_trusted_issuer(issuer #{i}) = {:?}, model {}", o.trusted[i], m.issuers.contains_key(&i));
+        for (t, h) in o.has[i].iter().enumerate() {
+            let want = m.issuers.get(&i).map(|ts| ts.contains(&t));
+            ensure!(*h == want, sig("has_claim_topic-mismatch"), "has_claim_topic(issuer #{i}, topic #{t}) = {:?}, model {:?} (None = refused)", h, want);
+        }
+    }
+    let want_all: Vec<(usize, Vec<usize>)> = mt.iter().map(|t| (*t, m.issuers.iter().filter(|(_, ts)| ts.contains(t)).map(|(i, _)| *i).collect())).collect();
+    ensure!(o.all.as_ref() == Some(&want_all), sig("get_claim_topics_and_issuers-mismatch"), "get_claim_topics_and_issuers = {:?}, model {:?}", o.all, want_all);
+    Ok(())
+}
+
+fn cti_resolve_list(l: &TList, topics_order: &[usize], nt_base: usize, tr: &Track) -> Vec<usize> {
+    let subset = |mask: u16| -> Vec<usize> {
+        let mut v: Vec<usize> = topics_order.iter().enumerate().filter(|(k, _)| (mask >> (k % 16)) & 1 == 1).map(|(_, t)| *t).collect();
+        if v.is_empty() && !topics_order.is_empty() {
+            v.push(topics_order[pick(mask, topics_order.len())]);
+        }
+        v
+    };
+    match l {
+        TList::Mask(m) => subset(*m),
+        TList::Empty => vec![],
+        TList::All => topics_order.to_vec(),
+        TList::Dup(m, s) => {
+            let mut v = subset(*m);
+            if !v.is_empty() {
+                let d = v[pick(*s, v.len())];
+                v.push(d);
+            }
+            v
+        }
+        TList::WithAbsent(m, s) => {
+            let mut v = subset(*m);
+            let a = resolve(Sel::Absent(*s), topics_order, nt_base, tr);
+            let at = pick(*s, v.len() + 1);
+            v.insert(at, a);
+            v
+        }
+        TList::One(s) => vec![resolve(*s, topics_order, nt_base, tr)],
+    }
+}
+
+/// outcome bookkeeping shared by the four interpreters
+fn outcome_clause(predicted: Result<(), &'static str>, ok: bool, at_limit: bool) -> Option<String> {
+    match (predicted, ok) {
+        (Ok(()), true) | (Err(_), false) => None,
+        (Ok(()), false) => Some(if at_limit { "limit-off-by-one".to_string() } else { "valid-call-refused".to_string() }),
+        (Err("limit"), true) => Some("limit-off-by-one".to_string()),
+        (Err(r), true) => Some(format!("{r}-accepted")),
+    }
+}
+
+pub fn run_cti(case: &CtiCase, ctx: &mut Ctx) -> R {
+    let e = new_env();
+    let c = e.register(Cti, ());
+    let op = Address::generate(&e);
+    let nt = CTI_NT + if case.fill_topics.is_some() || case.fill_issuers.is_some() { MAX_CLAIM_TOPICS as usize } else { 0 };
+    let ni = CTI_NI + if case.fill_issuers.is_some() { MAX_ISSUERS as usize } else { 0 };
+    let issuers: Vec<Address> = (0..ni).map(|_| Address::generate(&e)).collect();
+    let x = CtiX { e, c, op, nt, issuers };
+    let mut m = CtiModel::default();
+    let (mut ttr, mut itr) = (Track::default(), Track::default());
+
+    // capacity pre-fill (fillers only, so the base universe stays absent); every add is below the limit and must succeed
+    let mut prefill: Vec<CtiCall> = vec![];
+    if let Some(d) = case.fill_topics {
+        for k in 0..(MAX_CLAIM_TOPICS as usize).saturating_sub(d as usize) {
+            prefill.push(CtiCall::AddTopic(CTI_NT + k));
+        }
+    } else if case.fill_issuers.is_some() {
+        prefill.push(CtiCall::AddTopic(CTI_NT));
+        prefill.push(CtiCall::AddTopic(CTI_NT + 1));
+    }
+    if let Some(d) = case.fill_issuers {
+        for k in 0..(MAX_ISSUERS as usize).saturating_sub(d as usize) {
+            let l = if k % 2 == 0 { vec![CTI_NT] } else { vec![CTI_NT + 1, CTI_NT] };
+            prefill.push(CtiCall::AddIssuer(CTI_NI + k, l));
+        }
+    }
+    for pc in &prefill {
+        let pred = cti_predict(&m, pc);
+        let at_limit = cti_at_limit(&m, pc);
+        let r = cti_invoke(&x, pc);
+        ctx.op(r.is_ok());
+        if let Some(cl) = outcome_clause(pred, r.is_ok(), at_limit) {
+            bail!(format!("C20/claim_topics_and_issuers.{}/{cl}", pc.name()), "pre-fill {:?} with {} topics / {} issuers registered: result {:?}", pc, m.topics.len(), m.issuers.len(), r);
+        }
+        cti_apply(&mut m, pc);
+        if at_limit {
+            ctx.class("cti:add_at_limit_ok");
+        }
+    }
+    let mut obs = cti_observe(&x);
+    cti_check(&obs, &m, "prefill")?;
+    if !prefill.is_empty() {
+        ctx.class("cti:capacity_case");
+    }
+
+    let (mut two_way, mut refused) = (0u32, 0u32);
+    for (step, op) in case.ops.iter().enumerate() {
+        let to = obs.topics_order.clone().unwrap_or_default();
+        let io = obs.issuers_order.clone().unwrap_or_default();
+        let cc = match op {
+            CtiOp::AddTopic(s) => CtiCall::AddTopic(resolve(*s, &to, CTI_NT, &ttr)),
+            CtiOp::RemoveTopic(s) => CtiCall::RemoveTopic(resolve(*s, &to, CTI_NT, &ttr)),
+            CtiOp::AddIssuer(s, l) => CtiCall::AddIssuer(resolve(*s, &io, CTI_NI, &itr), cti_resolve_list(l, &to, CTI_NT, &ttr)),
+            CtiOp::RemoveIssuer(s) => CtiCall::RemoveIssuer(resolve(*s, &io, CTI_NI, &itr)),
+            CtiOp::UpdateIssuer(s, l) => CtiCall::UpdateIssuer(resolve(*s, &io, CTI_NI, &itr), cti_resolve_list(l, &to, CTI_NT, &ttr)),
+        };
+        let f = cc.name();
+        let pred = cti_predict(&m, &cc);
+        let at_limit = cti_at_limit(&m, &cc);
+        let r = cti_invoke(&x, &cc);
+        ctx.op(r.is_ok());
+        let obs2 = cti_observe(&x);
+        if let Some(cl) = outcome_clause(pred, r.is_ok(), at_limit) {
+            bail!(format!("C20/claim_topics_and_issuers.{f}/{cl}"), "step {step} {:?} with {} topics / {} issuers registered: model says {:?}, call returned {:?}", cc, m.topics.len(), m.issuers.len(), pred, r);
+        }
+        if r.is_err() {
+            refused += 1;
+            ensure!(obs2.canon() == obs.canon(), format!("C20/claim_topics_and_issuers.{f}/refused-call-changed-state"), "step {step} {:?} was refused but the registry changed: {:?} -> {:?}", cc, obs, obs2);
+            match pred {
+                Err("duplicate") => ctx.class("cti:duplicate_add_refused"),
+                Err("absent") => ctx.class("cti:absent_remove_or_update_refused"),
+                Err("limit") => ctx.class("cti:add_over_limit_refused"),
+                _ => ctx.class("cti:invalid_list_refused"),
+            }
+        } else {
+            if at_limit {
+                ctx.class("cti:add_at_limit_ok");
+            }
+            match &cc {
+                CtiCall::AddTopic(t) => {
+                    if ttr.removed.contains(t) {
+                        ctx.class("cti:readd_after_removal");
+                    }
+                }
+                CtiCall::AddIssuer(i, _) => {
+                    if itr.removed.contains(i) {
+                        ctx.class("cti:readd_after_removal");
+                    }
+                }
+                CtiCall::RemoveTopic(t) => {
+                    let p = to.iter().position(|q| q == t);
+                    if m.issuers.values().any(|ts| ts.contains(t)) {
+                        two_way += 1;
+                        ctx.class("cti:remove_topic_held_by_issuers");
+                        if m.issuers.values().any(|ts| ts.len() == 1 && ts.contains(t)) {
+                            ctx.class("cti:issuer_left_without_topics");
+                        }
+                    }
+                    cti_removed_classes(ctx, p, to.len());
+                    if ttr.on_removed(*t, p, to.len()) {
+                        ctx.class("cti:remove_middle_then_successor");
+                    }
+                }
+                CtiCall::RemoveIssuer(i) => {
+                    let p = io.iter().position(|q| q == i);
+                    if m.issuers.get(i).map(|ts| !ts.is_empty()).unwrap_or(false) {
+                        two_way += 1;
+                        ctx.class("cti:remove_issuer_with_topics");
+                        let ts = &m.issuers[i];
+                        if ts.iter().any(|t| m.issuers.values().filter(|o| o.contains(t)).count() == 1) {
+                            ctx.class("cti:last_issuer_of_topic_removed");
+                        }
+                    }
+                    cti_removed_classes(ctx, p, io.len());
+                    if itr.on_removed(*i, p, io.len()) {
+                        ctx.class("cti:remove_middle_then_successor");
+                    }
+                }
+                CtiCall::UpdateIssuer(i, l) => {
+                    let old = m.issuers.get(i).cloned().unwrap_or_default();
+                    let new: BTreeSet<usize> = l.iter().copied().collect();
+                    if old.difference(&new).next().is_some() && new.difference(&old).next().is_some() {
+                        two_way += 1;
+                        ctx.class("cti:update_adds_and_drops_topics");
+                    }
+                }
+            }
+            cti_apply(&mut m, &cc);
+        }
+        cti_check(&obs2, &m, f)?;
+        obs = obs2;
+    }
+    if two_way >= 1 && refused >= 1 {
+        ctx.nontrivial = true;
+        ctx.class("nontrivial_cti");
+    }
+    Ok(())
+}
+fn cti_removed_classes(ctx: &mut Ctx, p: Option<usize>, len: usize) {
+    match p {
+        Some(_) if len == 1 => ctx.class("cti:remove_only"),
+        Some(0) => ctx.class("cti:remove_first"),
+        Some(p) if p + 1 == len => ctx.class("cti:remove_last"),
+        Some(_) => ctx.class("cti:remove_middle"),
+        None => {}
+    }
+}
+
+// ------------------------------------------------------------------ 2. claim-issuer signing keys
+
+use stellar_tokens::rwa::claim_issuer::{self as ci, SigningKey, MAX_KEYS_PER_TOPIC, MAX_REGISTRIES_PER_KEY};
+
+const IK_NK: usize = 6;
+const IK_NT: usize = 3;
+const IK_NR: usize = 3;
+/// (public key bytes, scheme): the same public key under two schemes is two signing keys
+fn ik_key(i: usize) -> (Vec<u8>, u32) {
+    match i {
+        0 => (vec![1u8; 32], 1),
+        1 => (vec![1u8; 32], 2),
+        2 => (vec![2u8; 32], 1),
+        3 => (vec![3u8; 65], 1),
+        4 => (vec![3u8; 65], 3),
+        5 => (vec![9u8], 1),
+        _ => (vec![0xF0, (i - IK_NK) as u8, 7], 1),
+    }
+}
+fn ik_topic(i: usize) -> u32 {
+    match i {
+        0 => 1,
+        1 => 2,
+        2 => 77,
+        _ => 200 + (i - IK_NT) as u32,
+    }
+}
+type Triple = (usize, usize, usize); // (key, topic, registry) universe indices
+
+#[derive(Clone, Copy, Debug, Serialize, Deserialize, PartialEq)]
+pub enum IkSel {
+    /// an existing (key, topic, registry) authorization
+    Existing(Pos),
+    /// key of an existing authorization + a (topic, registry) pair it does not have
+    NewPairSameKey(Pos, u16),
+    /// key and topic of an existing authorization + another registry
+    NewRegSameKeyTopic(Pos, u16),
+    /// topic and registry of an existing authorization + another key
+    NewKeySameTopic(Pos, u16),
+    Absent(u16),
+    RemovedBefore(u16),
+    /// the key with the most pairs + a pair it does not have (fillers included): capacity probe
+    FullestKey(u16),
+    /// the topic with the most keys + a key that is not in it (fillers included): capacity probe
+    FullestTopic(u16),
+}
+#[derive(Clone, Debug, Serialize, Deserialize)]
+pub enum IkOp {
+    Allow(IkSel),
+    AllowEmptyKey { scheme: u8, topic: u8, reg: u8 },
+    Remove(IkSel),
+    /// script the registry mock: answer of `has_claim_topic` for a topic (0 false, 1 true, 2 call fails)
+    SetRegistry { reg: u8, topic: u8, answer: u8 },
+}
+#[derive(Clone, Debug, Serialize, Deserialize)]
+pub enum IkCap {
+    /// pre-fill one topic with filler keys up to `MAX_KEYS_PER_TOPIC - below`
+    KeysPerTopic { below: u8 },
+    /// pre-fill one key with (topic, registry) pairs up to `MAX_REGISTRIES_PER_KEY - below`
+    PairsPerKey { below: u8 },
+}
+#[derive(Clone, Debug, Serialize, Deserialize)]
+pub struct IkCase {
+    pub cap: Option<IkCap>,
+    pub ops: Vec<IkOp>,
+}
+
+fn ik_sel_strategy(for_allow: bool, capacity: bool) -> BoxedStrategy<IkSel> {
+    let p = pos_strategy;
+    let u = any::<u16>;
+    if capacity {
+        prop_oneof![
+            6 => u().prop_map(IkSel::FullestKey),
+            6 => u().prop_map(IkSel::FullestTopic),
+            2 => p().prop_map(IkSel::Existing),
+            1 => u().prop_map(IkSel::Absent),
+        ]
+        .boxed()
+    } else if for_allow {
+        prop_oneof![
+            2 => p().prop_map(IkSel::Existing),
+            4 => (p(), u()).prop_map(|(a, b)| IkSel::NewPairSameKey(a, b)),
+            3 => (p(), u()).prop_map(|(a, b)| IkSel::NewRegSameKeyTopic(a, b)),
+            4 => (p(), u()).prop_map(|(a, b)| IkSel::NewKeySameTopic(a, b)),
+            4 => u().prop_map(IkSel::Absent),
+            3 => u().prop_map(IkSel::RemovedBefore),
+            1 => u().prop_map(IkSel::FullestKey),
+        ]
+        .boxed()
+    } else {
+        prop_oneof![
+            12 => p().prop_map(IkSel::Existing),
+            1 => (p(), u()).prop_map(|(a, b)| IkSel::NewPairSameKey(a, b)),
+            1 => (p(), u()).prop_map(|(a, b)| IkSel::NewRegSameKeyTopic(a, b)),
+            1 => (p(), u()).prop_map(|(a, b)| IkSel::NewKeySameTopic(a, b)),
+            1 => u().prop_map(IkSel::Absent),
+            2 => u().prop_map(IkSel::RemovedBefore),
+        ]
+        .boxed()
+    }
+}
+fn ik_op_strategy(capacity: bool) -> BoxedStrategy<IkOp> {
+    let set_reg = (0u8..IK_NR as u8, 0u8..IK_NT as u8, prop_oneof![5 => Just(1u8), 2 => Just(0u8), 1 => Just(2u8)]).prop_map(|(reg, topic, answer)| IkOp::SetRegistry { reg, topic, answer });
+    let empty = (1u8..3, 0u8..IK_NT as u8, 0u8..IK_NR as u8).prop_map(|(scheme, topic, reg)| IkOp::AllowEmptyKey { scheme, topic, reg });
+    if capacity {
+        prop_oneof![
+            10 => ik_sel_strategy(true, true).prop_map(IkOp::Allow),
+            2 => ik_sel_strategy(false, false).prop_map(IkOp::Remove),
+        ]
+        .boxed()
+    } else {
+        prop_oneof![
+            12 => ik_sel_strategy(true, false).prop_map(IkOp::Allow),
+            8 => ik_sel_strategy(false, false).prop_map(IkOp::Remove),
+            1 => empty,
+            2 => set_reg,
+        ]
+        .boxed()
+    }
+}
+fn ik_strategy(_tier: Tier) -> BoxedStrategy<IkCase> {
+    let ordinary = proptest::collection::vec(ik_op_strategy(false), 1..=50).prop_map(|ops| IkCase { cap: None, ops });
+    let cap = prop_oneof![
+        (0u8..=2).prop_map(|below| IkCap::KeysPerTopic { below }),
+        (0u8..=3).prop_map(|below| IkCap::PairsPerKey { below }),
+    ];
+    let capacity = (cap, proptest::collection::vec(ik_op_strategy(true), 1..=10)).prop_map(|(cap, ops)| IkCase { cap: Some(cap), ops });
+    prop_oneof![5 => ordinary, 1 => capacity].boxed()
+}
+
+struct IkX {
+    e: Env,
+    c: Address,
+    regs: Vec<Address>,
+    nk: usize,
+    nt: usize,
+    keys: Vec<(Bytes, u32)>,
+}
+impl IkX {
+    fn kidx(&self, k: &SigningKey) -> usize {
+        self.keys.iter().position(|(pk, s)| *s == k.scheme && *pk == k.public_key).unwrap_or(UNK)
+    }
+    fn ridx(&self, a: &Address) -> usize {
+        self.regs.iter().position(|x| x == a).unwrap_or(UNK)
+    }
+}
+#[derive(Default, Clone, Debug)]
+struct IkModel {
+    /// insertion-ordered set of authorizations
+    triples: Vec<Triple>,
+    removed: Vec<Triple>,
+    /// scripted registry answers, default 1 (true)
+    answers: BTreeMap<(usize, usize), u8>,
+}
+impl IkModel {
+    fn pairs_of(&self, k: usize) -> Vec<(usize, usize)> {
+        self.triples.iter().filter(|t| t.0 == k).map(|t| (t.1, t.2)).collect()
+    }
+    fn keys_of(&self, t: usize) -> BTreeSet<usize> {
+        self.triples.iter().filter(|x| x.1 == t).map(|x| x.0).collect()
+    }
+    fn answer(&self, r: usize, t: usize) -> u8 {
+        self.answers.get(&(r, t)).copied().unwrap_or(1)
+    }
+}
+
+#[derive(Clone, Debug, PartialEq)]
+struct IkObs {
+    keys_for_topic: Vec<Option<Vec<usize>>>,
+    registries: Vec<Option<Vec<usize>>>,
+    for_topic: Vec<Vec<Option<bool>>>,
+    for_registry: Vec<Vec<Option<bool>>>,
+}
+fn ik_observe(x: &IkX) -> IkObs {
+    let e = &x.e;
+    e.as_contract(&x.c, || {
+        let keys_for_topic = (0..x.nt).map(|t| guarded(|| ci::get_keys_for_topic(e, ik_topic(t))).map(|v| sorted(&v.iter().map(|k| x.kidx(&k)).collect::<Vec<_>>()))).collect();
+        let registries = (0..x.nk)
+            .map(|k| {
+                let sk = SigningKey { public_key: x.keys[k].0.clone(), scheme: x.keys[k].1 };
+                guarded(|| ci::get_registries(e, &sk)).map(|v| sorted(&v.iter().map(|a| x.ridx(&a)).collect::<Vec<_>>()))
+            })
+            .collect();
+        let for_topic = (0..x.nk).map(|k| (0..x.nt).map(|t| guarded(|| ci::is_key_allowed_for_topic(e, &x.keys[k].0, x.keys[k].1, ik_topic(t)))).collect()).collect();
+        let for_registry = (0..x.nk).map(|k| (0..IK_NR).map(|r| guarded(|| ci::is_key_allowed_for_registry(e, &x.keys[k].0, x.keys[k].1, &x.regs[r]))).collect()).collect();
+        IkObs { keys_for_topic, registries, for_topic, for_registry }
+    })
+}
+fn ik_check(o: &IkObs, m: &IkModel, f: &str) -> R {
+    let sig = |clause: &str| format!("C20/claim_issuer.{f}/{clause}");
+    for (t, got) in o.keys_for_topic.iter().enumerate() {
+        let ks: Vec<usize> = m.keys_of(t).into_iter().collect();
+        // documented: NoKeysForTopic when no signing key is assigned to the topic
+        let want = if ks.is_empty() { None } else { Some(ks) };
+        ensure!(*got == want, sig("get_keys_for_topic-mismatch"), "get_keys_for_topic(topic #{t}) = {:?}, model {:?} (None = refused)", got, want);
+    }
+    for (k, got) in o.registries.iter().enumerate() {
+        let pairs = m.pairs_of(k);
+        match got {
+            None => ensure!(pairs.is_empty(), sig("get_registries-mismatch"), "get_registries(key #{k}) refused but the model has pairs {:?}", pairs),
+            Some(v) => {
+                // one registry per (topic, registry) pair, or each distinct registry once: both readings of
+                // "all registries associated with a signing key" are accepted; the SET must be exact
+                let multi = sorted(&pairs.iter().map(|p| p.1).collect::<Vec<_>>());
+                let mut set = multi.clone();
+                set.dedup();
+                ensure!(!pairs.is_empty() && (*v == multi || *v == set), sig("get_registries-mismatch"), "get_registries(key #{k}) = {:?}, model pairs (topic, registry) {:?}", v, pairs);
+            }
+        }
+        for (t, h) in o.for_topic[k].iter().enumerate() {
+            let want = pairs.iter().any(|p| p.0 == t);
+            ensure!(*h == Some(want), sig("is_key_allowed_for_topic-mismatch"), "is_key_allowed_for_topic(key #{k}, topic #{t}) = {:?}, model {want} (pairs {:?})", h, pairs);
+        }
+        for (r, h) in o.for_registry[k].iter().enumerate() {
+            let want = pairs.iter().any(|p| p.1 == r);
+            ensure!(*h == Some(want), sig("is_key_allowed_for_registry-mismatch"), "is_key_allowed_for_registry(key #{k}, registry #{r}) = {:?}, model {want} (pairs {:?})", h, pairs);
+        }
+    }
+    Ok(())
+}
+
+fn ik_resolve(sel: IkSel, m: &IkModel, x: &IkX, tr: &Track) -> Triple {
+    let order: Vec<usize> = (0..m.triples.len()).collect();
+    let existing = |p: Pos| -> Option<Triple> {
+        if m.triples.is_empty() {
+            None
+        } else {
+            Some(m.triples[pick_pos(p, &order, tr)])
+        }
+    };
+    let has = |t: &Triple| m.triples.contains(t);
+    let base_absent = |s: u16| -> Triple {
+        let c: Vec<Triple> = (0..IK_NK).flat_map(|k| (0..IK_NT).flat_map(move |t| (0..IK_NR).map(move |r| (k, t, r)))).filter(|t| !has(t)).collect();
+        if c.is_empty() {
+            m.triples[pick(s, m.triples.len())]
+        } else {
+            c[pick(s, c.len())]
+        }
+    };
+    match sel {
+        IkSel::Existing(p) => existing(p).unwrap_or_else(|| base_absent(0)),
+        IkSel::NewPairSameKey(p, s) => match existing(p) {
+            None => base_absent(s),
+            Some((k, _, _)) => {
+                let c: Vec<Triple> = (0..IK_NT).flat_map(|t| (0..IK_NR).map(move |r| (k, t, r))).filter(|t| !has(t)).collect();
+                if c.is_empty() {
+                    (k, 0, 0)
+                } else {
+                    c[pick(s, c.len())]
+                }
+            }
+        },
+        IkSel::NewRegSameKeyTopic(p, s) => match existing(p) {
+            None => base_absent(s),
+            Some((k, t, r0)) => {
+                let c: Vec<Triple> = (0..IK_NR).map(|r| (k, t, r)).filter(|t| !has(t)).collect();
+                if c.is_empty() {
+                    (k, t, r0)
+                } else {
+                    c[pick(s, c.len())]
+                }
+            }
+        },
+        IkSel::NewKeySameTopic(p, s) => match existing(p) {
+            None => base_absent(s),
+            Some((k0, t, r)) => {
+                let c: Vec<Triple> = (0..IK_NK).map(|k| (k, t, r)).filter(|t| !has(t)).collect();
+                if c.is_empty() {
+                    (k0, t, r)
+                } else {
+                    c[pick(s, c.len())]
+                }
+            }
+        },
+        IkSel::Absent(s) => base_absent(s),
+        IkSel::RemovedBefore(s) => {
+            let c: Vec<Triple> = m.removed.iter().copied().filter(|t| !has(t)).collect();
+            if c.is_empty() {
+                base_absent(s)
+            } else {
+                c[pick(s, c.len())]
+            }
+        }
+        IkSel::FullestKey(s) => {
+            let k = (0..x.nk).max_by_key(|k| (m.pairs_of(*k).len(), usize::MAX - *k)).unwrap_or(0);
+            let c: Vec<Triple> = (0..x.nt).flat_map(|t| (0..IK_NR).map(move |r| (k, t, r))).filter(|t| !has(t)).collect();
+            if c.is_empty() {
+                (k, 0, 0)
+            } else {
+                c[pick(s, c.len())]
+            }
+        }
+        IkSel::FullestTopic(s) => {
+            let t = (0..x.nt).max_by_key(|t| (m.keys_of(*t).len(), usize::MAX - *t)).unwrap_or(0);
+            let ks = m.keys_of(t);
+            let c: Vec<usize> = (0..x.nk).filter(|k| !ks.contains(k)).collect();
+            if c.is_empty() {
+                (0, t, 0)
+            } else {
+                (c[pick(s, c.len())], t, pick(s.rotate_left(5), IK_NR))
+            }
+        }
+    }
+}
+
+/// Err(reason) = the documented behaviour is to refuse
+fn ik_predict_allow(m: &IkModel, (k, t, r): Triple) -> Result<(), &'static str> {
+    if m.answer(r, t) != 1 {
+        return Err("issuer-not-allowed-for-topic");
+    }
+    if m.triples.contains(&(k, t, r)) {
+        return Err("duplicate");
+    }
+    let kt = m.keys_of(t);
+    if !kt.contains(&k) && kt.len() >= MAX_KEYS_PER_TOPIC as usize {
+        return Err("limit");
+    }
+    if m.pairs_of(k).len() >= MAX_REGISTRIES_PER_KEY as usize {
+        return Err("limit");
+    }
+    Ok(())
+}
+fn ik_allow_at_limit(m: &IkModel, (k, t, _): Triple) -> bool {
+    let kt = m.keys_of(t);
+    m.pairs_of(k).len() + 1 == MAX_REGISTRIES_PER_KEY as usize || (!kt.contains(&k) && kt.len() + 1 == MAX_KEYS_PER_TOPIC as usize)
+}
+fn ik_invoke(x: &IkX, f: &str, (k, t, r): Triple) -> Result<Val, String> {
+    let e = &x.e;
+    call(e, &x.c, f, args![e; x.keys[k].0.clone(), x.regs[r].clone(), x.keys[k].1, ik_topic(t)])
+}
+
+pub fn run_issuer_keys(case: &IkCase, ctx: &mut Ctx) -> R {
+    let e = new_env();
+    let c = e.register(IssuerKeys, ());
+    let regs: Vec<Address> = (0..IK_NR).map(|_| e.register(RegistryMock, ())).collect();
+    let nk = IK_NK + if matches!(case.cap, Some(IkCap::KeysPerTopic { .. })) { MAX_KEYS_PER_TOPIC as usize + 1 } else { 0 };
+    let nt = IK_NT + if matches!(case.cap, Some(IkCap::PairsPerKey { .. })) { 5 } else { 0 };
+    let keys: Vec<(Bytes, u32)> = (0..nk).map(|i| (Bytes::from_slice(&e, &ik_key(i).0), ik_key(i).1)).collect();
+    let x = IkX { e, c, regs, nk, nt, keys };
+    let mut m = IkModel::default();
+    let mut tr = Track::default();
+
+    // one allow_key step (used by the pre-fill and by the history): outcome vs model, precise limit signature
+    fn allow_step(x: &IkX, m: &mut IkModel, tp: Triple, ctx: &mut Ctx, what: &str) -> Result<bool, Violation> {
+        let pred = ik_predict_allow(m, tp);
+        let at_limit = ik_allow_at_limit(m, tp);
+        let npairs = m.pairs_of(tp.0).len();
+        let nkeys = m.keys_of(tp.1).len();
+        let r = ik_invoke(x, "allow_key", tp);
+        ctx.op(r.is_ok());
+        if let Some(cl) = outcome_clause(pred, r.is_ok(), at_limit) {
+            return Err(violation(
+                format!("C20/claim_issuer.allow_key/{cl}"),
+                format!(
+                    "{what}: allow_key(key #{}, registry #{}, topic #{}) with {npairs} (topic, registry) pairs already on the key (MAX_REGISTRIES_PER_KEY = {}) and {nkeys} keys on the topic (MAX_KEYS_PER_TOPIC = {}): model says {:?}, call returned {:?}",
+                    tp.0, tp.2, tp.1, MAX_REGISTRIES_PER_KEY, MAX_KEYS_PER_TOPIC, pred, r
+                ),
+            ));
+        }
+        if r.is_ok() {
+            if at_limit {
+                ctx.class("keys:allow_at_limit_ok");
+            }
+            m.triples.push(tp);
+        }
+        Ok(r.is_ok())
+    }
+
+    match case.cap {
+        Some(IkCap::KeysPerTopic { below }) => {
+            for j in 0..(MAX_KEYS_PER_TOPIC as usize).saturating_sub(below as usize) {
+                allow_step(&x, &mut m, (IK_NK + j, 0, j % IK_NR), ctx, "pre-fill")?;
+            }
+            ctx.class("keys:capacity_case");
+        }
+        Some(IkCap::PairsPerKey { below }) => {
+            let all: Vec<Triple> = (0..nt).rev().flat_map(|t| (0..IK_NR).map(move |r| (0usize, t, r))).collect();
+            for tp in all.into_iter().take((MAX_REGISTRIES_PER_KEY as usize).saturating_sub(below as usize)) {
+                allow_step(&x, &mut m, tp, ctx, "pre-fill")?;
+            }
+            ctx.class("keys:capacity_case");
+        }
+        None => {}
+    }
+    let mut obs = ik_observe(&x);
+    ik_check(&obs, &m, "prefill")?;
+
+    let (mut both_dirs, mut refused) = (0u32, 0u32);
+    for (step, op) in case.ops.iter().enumerate() {
+        let what = format!("step {step} {:?}", op);
+        let f: &str;
+        let refused_before = refused;
+        match op {
+            IkOp::SetRegistry { reg, topic, answer } => {
+                let (r, t) = (*reg as usize % IK_NR, *topic as usize % IK_NT);
+                let res = call(&x.e, &x.regs[r], "set_answer", args![&x.e; ik_topic(t), *answer as u32]);
+                ensure!(res.is_ok(), "C20/claim_issuer.setup/registry-mock", "{what}: {:?}", res);
+                m.answers.insert((r, t), *answer);
+                ctx.class("keys:registry_rescripted");
+                f = "set_registry";
+            }
+            IkOp::AllowEmptyKey { scheme, topic, reg } => {
+                f = "allow_key";
+                let res = call(&x.e, &x.c, "allow_key", args![&x.e; Bytes::new(&x.e), x.regs[*reg as usize % IK_NR].clone(), *scheme as u32, ik_topic(*topic as usize % IK_NT)]);
+                ctx.op(res.is_ok());
+                ensure!(res.is_err(), "C20/claim_issuer.allow_key/empty-key-accepted", "{what}: an empty public key was accepted");
+                refused += 1;
+                ctx.class("keys:empty_key_refused");
+            }
+            IkOp::Allow(s) => {
+                f = "allow_key";
+                let tp = ik_resolve(*s, &m, &x, &tr);
+                let pred = ik_predict_allow(&m, tp);
+                let was_removed = m.removed.contains(&tp);
+                let ok = allow_step(&x, &mut m, tp, ctx, &what)?;
+                if ok {
+                    if was_removed {
+                        ctx.class("keys:readd_after_removal");
+                    }
+                } else {
+                    refused += 1;
+                    match pred {
+                        Err("duplicate") => ctx.class("keys:duplicate_allow_refused"),
+                        Err("limit") => ctx.class("keys:allow_over_limit_refused"),
+                        _ => ctx.class("keys:registry_says_no_refused"),
+                    }
+                }
+            }
+            IkOp::Remove(s) => {
+                f = "remove_key";
+                let tp = ik_resolve(*s, &m, &x, &tr);
+                let p = m.triples.iter().position(|t| *t == tp);
+                let res = ik_invoke(&x, "remove_key", tp);
+                ctx.op(res.is_ok());
+                let pred: Result<(), &'static str> = if p.is_some() { Ok(()) } else { Err("absent") };
+                if let Some(cl) = outcome_clause(pred, res.is_ok(), false) {
+                    bail!(format!("C20/claim_issuer.remove_key/{cl}"), "{what}: remove_key{:?} (key, topic, registry), model present = {}, call returned {:?}", tp, p.is_some(), res);
+                }
+                if let Some(p) = p {
+                    let len = m.triples.len();
+                    m.triples.remove(p);
+                    if !m.removed.contains(&tp) {
+                        m.removed.push(tp);
+                    }
+                    let others_same_topic = m.triples.iter().any(|t| t.0 == tp.0 && t.1 == tp.1);
+                    let others = m.triples.iter().any(|t| t.0 == tp.0);
+                    if !others_same_topic {
+                        ctx.class("keys:last_pair_of_topic_removed");
+                        if others {
+                            both_dirs += 1;
+                            ctx.class("keys:key_leaves_topic_keeps_other_pairs");
+                        }
+                        if m.keys_of(tp.1).is_empty() {
+                            ctx.class("keys:topic_emptied");
+                        } else {
+                            both_dirs += 1;
+                        }
+                    } else {
+                        ctx.class("keys:pair_removed_key_stays_in_topic");
+                    }
+                    match p {
+                        _ if len == 1 => ctx.class("keys:remove_only"),
+                        0 => ctx.class("keys:remove_first"),
+                        p if p + 1 == len => ctx.class("keys:remove_last"),
+                        _ => ctx.class("keys:remove_middle"),
+                    }
+                    if tr.on_removed(0, Some(p), len) {
+                        ctx.class("keys:remove_middle_then_successor");
+                    }
+                } else {
+                    refused += 1;
+                    ctx.class("keys:absent_remove_refused");
+                }
+            }
+        }
+        let obs2 = ik_observe(&x);
+        if refused > refused_before {
+            ensure!(obs2 == obs, format!("C20/claim_issuer.{f}/refused-call-changed-state"), "{what}: refused but the registry changed: {:?} -> {:?}", obs, obs2);
+        }
+        ik_check(&obs2, &m, f)?;
+        obs = obs2;
+    }
+    if both_dirs >= 1 && refused >= 1 {
+        ctx.nontrivial = true;
+        ctx.class("nontrivial_keys");
+    }
+    Ok(())
+}
+
+// ------------------------------------------------------------------ 3. identity registry storage
+
+use stellar_tokens::rwa::identity_registry_storage::{
+    self as irs, CountryData, CountryRelation, IdentityType, IndividualCountryRelation as Ind, OrganizationCountryRelation as Org, MAX_COUNTRY_ENTRIES, MAX_METADATA_ENTRIES,
+    MAX_METADATA_STRING_LEN,
+};
+
+const IRS_NA: usize = 6;
+const IRS_NID: usize = 3;
+
+/// a country-data value (plain data; built inside the Env by `irs_cd`)
+#[derive(Clone, Copy, Debug, Serialize, Deserialize, PartialEq)]
+pub enum Cd {
+    /// one of ten valid entries (all relation variants, some with metadata)
+    Pool(u8),
+    /// metadata map with `n` entries (valid iff n <= MAX_METADATA_ENTRIES)
+    MetaEntries(u8),
+    /// one metadata string of length `n` (valid iff n <= MAX_METADATA_STRING_LEN)
+    MetaStrLen(u8),
+}
+fn cd_valid(c: &Cd) -> bool {
+    match c {
+        Cd::Pool(_) => true,
+        Cd::MetaEntries(n) => *n as u32 <= MAX_METADATA_ENTRIES,
+        Cd::MetaStrLen(n) => *n as u32 <= MAX_METADATA_STRING_LEN,
+    }
+}
+fn irs_cd(e: &Env, c: &Cd) -> CountryData {
+    let meta = |kv: &[(&str, &str)]| -> Option<Map<Symbol, SString>> {
+        let mut m = Map::new(e);
+        for (k, v) in kv {
+            m.set(Symbol::new(e, k), SString::from_str(e, v));
+        }
+        Some(m)
+    };
+    match c {
+        Cd::Pool(i) => match i % 10 {
+            0 => CountryData { country: CountryRelation::Individual(Ind::Residence(840)), metadata: None },
+            1 => CountryData { country: CountryRelation::Individual(Ind::Citizenship(276)), metadata: None },
+            2 => CountryData { country: CountryRelation::Individual(Ind::SourceOfFunds(792)), metadata: meta(&[("visa", "H1B")]) },
+            3 => CountryData { country: CountryRelation::Individual(Ind::TaxResidency(756)), metadata: None },
+            4 => CountryData { country: CountryRelation::Individual(Ind::Custom(Symbol::new(e, "Family"), 250)), metadata: None },
+            5 => CountryData { country: CountryRelation::Organization(Org::Incorporation(840)), metadata: meta(&[("entity_type", "Corporation")]) },
+            6 => CountryData { country: CountryRelation::Organization(Org::OperatingJurisdiction(276)), metadata: None },
+            7 => CountryData { country: CountryRelation::Organization(Org::TaxJurisdiction(756)), metadata: None },
+            8 => CountryData { country: CountryRelation::Organization(Org::SourceOfFunds(0)), metadata: meta(&[]) },
+            _ => CountryData { country: CountryRelation::Organization(Org::Custom(Symbol::new(e, "Subsidiary"), 792)), metadata: meta(&[("a", ""), ("b", "x")]) },
+        },
+        Cd::MetaEntries(n) => {
+            let mut m = Map::new(e);
+            for k in 0..*n {
+                m.set(Symbol::new(e, &format!("k{k}")), SString::from_str(e, "v"));
+            }
+            CountryData { country: CountryRelation::Individual(Ind::Residence(*n as u32)), metadata: Some(m) }
+        }
+        Cd::MetaStrLen(n) => {
+            let s: std::string::String = "x".repeat(*n as usize);
+            CountryData { country: CountryRelation::Individual(Ind::Citizenship(1000 + *n as u32)), metadata: meta(&[("note", s.as_str())]) }
+        }
+    }
+}
+fn cd_strategy() -> BoxedStrategy<Cd> {
+    prop_oneof![
+        20 => (0u8..10).prop_map(Cd::Pool),
+        2 => proptest::sample::select(vec![0u8, 1, 9, 10, 10, 11, 12]).prop_map(Cd::MetaEntries),
+        2 => proptest::sample::select(vec![0u8, 99, 100, 100, 101, 102, 200]).prop_map(Cd::MetaStrLen),
+    ]
+    .boxed()
+}
+
+/// a country-data list argument
+#[derive(Clone, Debug, Serialize, Deserialize)]
+pub enum CList {
+    Items(Vec<Cd>),
+    /// as many copies of `filler` (and one `head`) as make the account's total `MAX_COUNTRY_ENTRIES + delta`
+    ToLimit(i8, Cd, Cd),
+}
+fn clist_strategy() -> BoxedStrategy<CList> {
+    prop_oneof![
+        9 => proptest::collection::vec(cd_strategy(), 1..=4).prop_map(CList::Items),
+        1 => Just(CList::Items(vec![])),
+        3 => (-2i8..=2, cd_strategy(), (0u8..10).prop_map(Cd::Pool)).prop_map(|(d, h, f)| CList::ToLimit(d, h, f)),
+    ]
+    .boxed()
+}
+
+/// account selector (the registry has no enumeration getter: "order" is the model's insertion order)
+#[derive(Clone, Copy, Debug, Serialize, Deserialize, PartialEq)]
+pub enum ASel {
+    /// an account that currently has an identity
+    Registered(Pos),
+    /// an account without identity that was never recovered
+    Free(u16),
+    /// an account that was recovered to another one (it carries a `recovered_to` link)
+    Recovered(u16),
+    /// an account whose identity was removed earlier (no link) and that is free now
+    RemovedBefore(u16),
+    Any(u16),
+}
+fn asel_strategy(wreg: u32, wfree: u32, wrec: u32) -> BoxedStrategy<ASel> {
+    prop_oneof![
+        wreg => pos_strategy().prop_map(ASel::Registered),
+        wfree => any::<u16>().prop_map(ASel::Free),
+        wrec => any::<u16>().prop_map(ASel::Recovered),
+        1 => any::<u16>().prop_map(ASel::RemovedBefore),
+        1 => any::<u16>().prop_map(ASel::Any),
+    ]
+    .boxed()
+}
+#[derive(Clone, Copy, Debug, Serialize, Deserialize, PartialEq)]
+pub enum IdxSel {
+    First,
+    Last,
+    Mid,
+    /// the element that moved into the slot of the last deletion
+    Swapped,
+    OnePast,
+    Raw(u8),
+}
+fn idx_strategy() -> BoxedStrategy<IdxSel> {
+    prop_oneof![2 => Just(IdxSel::First), 2 => Just(IdxSel::Last), 3 => Just(IdxSel::Mid), 3 => Just(IdxSel::Swapped), 2 => Just(IdxSel::OnePast), 2 => (0u8..20).prop_map(IdxSel::Raw)].boxed()
+}
+
+#[derive(Clone, Debug, Serialize, Deserialize)]
+pub enum IrsOp {
+    Add { a: ASel, ident: u8, org: bool, list: CList },
+    Remove { a: ASel },
+    ModifyIdentity { a: ASel, ident: u8 },
+    Recover { old: ASel, new: ASel },
+    AddCountries { a: ASel, list: CList },
+    ModifyCountry { a: ASel, idx: IdxSel, cd: Cd },
+    DeleteCountry { a: ASel, idx: IdxSel },
+}
+#[derive(Clone, Debug, Serialize, Deserialize)]
+pub struct IrsCase {
+    pub ops: Vec<IrsOp>,
+}
+fn irs_strategy(_tier: Tier) -> BoxedStrategy<IrsCase> {
+    let op = prop_oneof![
+        9 => (asel_strategy(1, 6, 2), 0u8..IRS_NID as u8, any::<bool>(), clist_strategy()).prop_map(|(a, ident, org, list)| IrsOp::Add { a, ident, org, list }),
+        3 => asel_strategy(6, 1, 1).prop_map(|a| IrsOp::Remove { a }),
+        2 => (asel_strategy(6, 1, 1), 0u8..IRS_NID as u8).prop_map(|(a, ident)| IrsOp::ModifyIdentity { a, ident }),
+        5 => (asel_strategy(7, 1, 1), asel_strategy(1, 5, 3)).prop_map(|(old, new)| IrsOp::Recover { old, new }),
+        5 => (asel_strategy(8, 1, 1), clist_strategy()).prop_map(|(a, list)| IrsOp::AddCountries { a, list }),
+        4 => (asel_strategy(8, 1, 1), idx_strategy(), cd_strategy()).prop_map(|(a, idx, cd)| IrsOp::ModifyCountry { a, idx, cd }),
+        5 => (asel_strategy(8, 1, 1), idx_strategy()).prop_map(|(a, idx)| IrsOp::DeleteCountry { a, idx }),
+    ];
+    proptest::collection::vec(op, 1..=50).prop_map(|ops| IrsCase { ops }).boxed()
+}
+
+#[derive(Clone, Debug)]
+struct IrsEntry {
+    ident: usize,
+    org: bool,
+    /// canonical (XDR) images of the country data, in the enumeration order last observed
+    countries: Vec<ScVal>,
+}
+#[derive(Default, Clone, Debug)]
+struct IrsModel {
+    reg: BTreeMap<usize, IrsEntry>,
+    /// insertion order of the registered accounts (selector support only)
+    order: Vec<usize>,
+    recovered_to: BTreeMap<usize, usize>,
+    removed: BTreeSet<usize>,
+}
+
+struct IrsX {
+    e: Env,
+    c: Address,
+    accts: Vec<Address>,
+    idents: Vec<Address>,
+}
+impl IrsX {
+    fn aidx(&self, a: &Address) -> usize {
+        self.accts.iter().position(|x| x == a).unwrap_or(UNK)
+    }
+    fn iidx(&self, a: &Address) -> usize {
+        self.idents.iter().position(|x| x == a).unwrap_or(UNK)
+    }
+    fn canon(&self, cd: &CountryData) -> ScVal {
+        let v: Val = cd.into_val(&self.e);
+        ScVal::try_from_val(&self.e, &v).expect("country data to ScVal")
+    }
+    fn cvec(&self, l: &[Cd]) -> SVec<CountryData> {
+        let mut v = SVec::new(&self.e);
+        for c in l {
+            v.push_back(irs_cd(&self.e, c));
+        }
+        v
+    }
+}
+
+#[derive(Clone, Debug, PartialEq)]
+struct IrsAcctObs {
+    stored_identity: Option<usize>,
+    /// (is organization, countries)
+    profile: Option<(bool, Vec<ScVal>)>,
+    entries: Option<Vec<ScVal>>,
+    /// get_country_data(i) for i in 0..=len(entries) (the last one is "one past")
+    by_index: Vec<Option<ScVal>>,
+    recovered_to: Option<Option<usize>>,
+}
+fn irs_observe(x: &IrsX) -> Vec<IrsAcctObs> {
+    let e = &x.e;
+    e.as_contract(&x.c, || {
+        x.accts
+            .iter()
+            .map(|a| {
+                let stored_identity = guarded(|| irs::stored_identity(e, a)).map(|i| x.iidx(&i));
+                let profile = guarded(|| irs::get_identity_profile(e, a)).map(|p| (p.identity_type == IdentityType::Organization, p.countries.iter().map(|c| x.canon(&c)).collect::<Vec<_>>()));
+                let entries = guarded(|| irs::get_country_data_entries(e, a)).map(|v| v.iter().map(|c| x.canon(&c)).collect::<Vec<_>>());
+                let n = entries.as_ref().map(|v| v.len()).unwrap_or(0);
+                let by_index = (0..=n as u32).map(|i| guarded(|| irs::get_country_data(e, a, i)).map(|c| x.canon(&c))).collect();
+                let recovered_to = guarded(|| irs::get_recovered_to(e, a)).map(|o| o.map(|t| x.aidx(&t)));
+                IrsAcctObs { stored_identity, profile, entries, by_index, recovered_to }
+            })
+            .collect()
+    })
+}
+fn irs_canon(o: &[IrsAcctObs]) -> Vec<IrsAcctObs> {
+    o.iter()
+        .map(|a| {
+            let mut a = a.clone();
+            a.profile = a.profile.map(|(t, c)| (t, sorted(&c)));
+            a.entries = a.entries.map(|c| sorted(&c));
+            a.by_index.sort();
+            a
+        })
+        .collect()
+}
+fn irs_check(obs: &[IrsAcctObs], m: &IrsModel, f: &str) -> R {
+    let sig = |clause: &str| format!("C20/identity_registry_storage.{f}/{clause}");
+    for (a, o) in obs.iter().enumerate() {
+        let me = m.reg.get(&a);
+        ensure!(o.stored_identity == me.map(|x| x.ident), sig("stored_identity-mismatch"), "stored_identity(account #{a}) = {:?}, model {:?} (None = refused)", o.stored_identity, me.map(|x| x.ident));
+        let want_c = me.map(|x| sorted(&x.countries));
+        let got_p = o.profile.as_ref().map(|(t, c)| (*t, sorted(c)));
+        ensure!(got_p == me.map(|x| (x.org, sorted(&x.countries))), sig("get_identity_profile-mismatch"), "get_identity_profile(account #{a}) = {:?}, model {:?}", o.profile, me);
+        // documented: empty vector when nothing is stored
+        ensure!(o.entries.as_ref().map(|c| sorted(c)) == Some(want_c.clone().unwrap_or_default()), sig("get_country_data_entries-mismatch"), "get_country_data_entries(account #{a}) = {:?}, model {:?}", o.entries, want_c);
+        // index access: 0..count enumerates every entry exactly once, one past the end is refused
+        let n = want_c.as_ref().map(|c| c.len()).unwrap_or(0);
+        ensure!(o.by_index.len() == n + 1, sig("get_country_data-index-range"), "account #{a}: {} indices probed, model count {n}", o.by_index.len());
+        let inside: Option<Vec<ScVal>> = o.by_index[..n].iter().cloned().collect();
+        ensure!(inside.as_ref().map(|c| sorted(c)) == Some(want_c.clone().unwrap_or_default()), sig("get_country_data-index-bijection"), "get_country_data(account #{a}, 0..{n}) = {:?}, model {:?}", &o.by_index[..n], want_c);
+        ensure!(o.by_index[n].is_none(), sig("get_country_data-one-past-accepted"), "get_country_data(account #{a}, {n}) answered {:?} although the account has {n} entries", o.by_index[n]);
+        ensure!(o.recovered_to == Some(m.recovered_to.get(&a).copied()), sig("get_recovered_to-mismatch"), "get_recovered_to(account #{a}) = {:?}, model {:?}", o.recovered_to, m.recovered_to.get(&a));
+    }
+    Ok(())
+}
+
+fn irs_resolve_acct(s: ASel, m: &IrsModel, tr: &Track) -> usize {
+    let choose = |c: Vec<usize>, k: u16| -> Option<usize> {
+        if c.is_empty() {
+            None
+        } else {
+            Some(c[pick(k, c.len())])
+        }
+    };
+    let free = |k: u16| choose((0..IRS_NA).filter(|a| !m.reg.contains_key(a) && !m.recovered_to.contains_key(a)).collect(), k);
+    match s {
+        ASel::Registered(p) => {
+            if m.order.is_empty() {
+                free(0).unwrap_or(0)
+            } else {
+                pick_pos(p, &m.order, tr)
+            }
+        }
+        ASel::Free(k) => free(k).unwrap_or_else(|| pick(k, IRS_NA)),
+        ASel::Recovered(k) => choose(m.recovered_to.keys().copied().collect(), k).or_else(|| free(k)).unwrap_or_else(|| pick(k, IRS_NA)),
+        ASel::RemovedBefore(k) => choose(m.removed.iter().copied().filter(|a| !m.reg.contains_key(a) && !m.recovered_to.contains_key(a)).collect(), k).or_else(|| free(k)).unwrap_or_else(|| pick(k, IRS_NA)),
+        ASel::Any(k) => pick(k, IRS_NA),
+    }
+}
+fn irs_resolve_list(l: &CList, current: usize) -> Vec<Cd> {
+    match l {
+        CList::Items(v) => v.clone(),
+        CList::ToLimit(d, head, filler) => {
+            let n = (MAX_COUNTRY_ENTRIES as i64 + *d as i64 - current as i64).max(1) as usize;
+            let mut v = vec![*filler; n];
+            v[0] = *head;
+            v
+        }
+    }
+}
+fn irs_resolve_idx(s: IdxSel, count: usize, swapped: Option<usize>) -> u32 {
+    (match s {
+        IdxSel::First => 0,
+        IdxSel::Last => count.saturating_sub(1),
+        IdxSel::Mid => count / 2,
+        IdxSel::Swapped => swapped.filter(|p| *p < count).unwrap_or(count / 2),
+        IdxSel::OnePast => count,
+        IdxSel::Raw(k) => k as usize,
+    }) as u32
+}
+
+/// model effect of a call, applied only when the call succeeded
+enum IrsEff {
+    Add { a: usize, ident: usize, org: bool, countries: Vec<ScVal> },
+    Remove { a: usize },
+    ModifyIdentity { a: usize, ident: usize },
+    Recover { old: usize, new: usize },
+    AddCountries { a: usize, add: Vec<ScVal> },
+    ModifyCountry { a: usize, i: usize, cv: ScVal },
+    DeleteCountry { a: usize, i: usize, cur: usize },
+}
+
+pub fn run_irs(case: &IrsCase, ctx: &mut Ctx) -> R {
+    let e = new_env();
+    let c = e.register(Irs, ());
+    let accts: Vec<Address> = (0..IRS_NA).map(|_| Address::generate(&e)).collect();
+    let idents: Vec<Address> = (0..IRS_NID).map(|_| Address::generate(&e)).collect();
+    let x = IrsX { e, c, accts, idents };
+    let e = &x.e;
+    let mut m = IrsModel::default();
+    let mut tr = Track::default();
+    let mut obs = irs_observe(&x);
+    irs_check(&obs, &m, "initial")?;
+    // per-account: slot of the last country deletion (IdxSel::Swapped) and whether it was a middle slot
+    let mut del_slot: BTreeMap<usize, (usize, bool)> = BTreeMap::new();
+    let (mut recovered_ok, mut recovered_refusals, mut refused) = (0u32, 0u32, 0u32);
+
+    for (step, op) in case.ops.iter().enumerate() {
+        let what = format!("step {step} {:?}", op);
+        let (f, res, pred, at_limit): (&str, Result<Val, String>, Result<(), &'static str>, bool);
+        let effect: IrsEff;
+        let list_reason = |l: &[Cd]| -> Option<&'static str> {
+            if l.is_empty() {
+                Some("empty-country-list")
+            } else if !l.iter().all(cd_valid) {
+                Some("invalid-metadata")
+            } else {
+                None
+            }
+        };
+        match op {
+            IrsOp::Add { a, ident, org, list } => {
+                f = "add_identity";
+                let a = irs_resolve_acct(*a, &m, &tr);
+                let l = irs_resolve_list(list, 0);
+                let ident = *ident as usize % IRS_NID;
+                pred = if m.recovered_to.contains_key(&a) {
+                    Err("recovered-account")
+                } else if m.reg.contains_key(&a) {
+                    Err("duplicate")
+                } else if let Some(r) = list_reason(&l) {
+                    Err(r)
+                } else if l.len() > MAX_COUNTRY_ENTRIES as usize {
+                    Err("limit")
+                } else {
+                    Ok(())
+                };
+                at_limit = l.len() == MAX_COUNTRY_ENTRIES as usize;
+                let ty = if *org { IdentityType::Organization } else { IdentityType::Individual };
+                res = call(e, &x.c, f, args![e; x.accts[a].clone(), x.idents[ident].clone(), ty, x.cvec(&l)]);
+                let countries: Vec<ScVal> = l.iter().map(|c| x.canon(&irs_cd(e, c))).collect();
+                effect = IrsEff::Add { a, ident, org: *org, countries };
+            }
+            IrsOp::Remove { a } => {
+                f = "remove_identity";
+                let a = irs_resolve_acct(*a, &m, &tr);
+                pred = if m.reg.contains_key(&a) { Ok(()) } else { Err("absent") };
+                at_limit = false;
+                res = call(e, &x.c, f, args![e; x.accts[a].clone()]);
+                effect = IrsEff::Remove { a };
+            }
+            IrsOp::ModifyIdentity { a, ident } => {
+                f = "modify_identity";
+                let a = irs_resolve_acct(*a, &m, &tr);
+                let ident = *ident as usize % IRS_NID;
+                pred = if m.reg.contains_key(&a) { Ok(()) } else { Err("absent") };
+                at_limit = false;
+                res = call(e, &x.c, f, args![e; x.accts[a].clone(), x.idents[ident].clone()]);
+                effect = IrsEff::ModifyIdentity { a, ident };
+            }
+            IrsOp::Recover { old, new } => {
+                f = "recover_identity";
+                let old = irs_resolve_acct(*old, &m, &tr);
+                let new = irs_resolve_acct(*new, &m, &tr);
+                pred = if !m.reg.contains_key(&old) {
+                    Err("absent")
+                } else if m.recovered_to.contains_key(&new) {
+                    Err("recovered-account")
+                } else if m.reg.contains_key(&new) {
+                    Err("duplicate")
+                } else {
+                    Ok(())
+                };
+                at_limit = false;
+                res = call(e, &x.c, f, args![e; x.accts[old].clone(), x.accts[new].clone()]);
+                effect = IrsEff::Recover { old, new };
+            }
+            IrsOp::AddCountries { a, list } => {
+                f = "add_country_data_entries";
+                let a = irs_resolve_acct(*a, &m, &tr);
+                let cur = m.reg.get(&a).map(|x| x.countries.len()).unwrap_or(0);
+                let l = irs_resolve_list(list, cur);
+                pred = if let Some(r) = list_reason(&l) {
+                    Err(r)
+                } else if !m.reg.contains_key(&a) {
+                    Err("absent")
+                } else if cur + l.len() > MAX_COUNTRY_ENTRIES as usize {
+                    Err("limit")
+                } else {
+                    Ok(())
+                };
+                at_limit = cur + l.len() == MAX_COUNTRY_ENTRIES as usize;
+                res = call(e, &x.c, f, args![e; x.accts[a].clone(), x.cvec(&l)]);
+                let add: Vec<ScVal> = l.iter().map(|c| x.canon(&irs_cd(e, c))).collect();
+                effect = IrsEff::AddCountries { a, add };
+            }
+            IrsOp::ModifyCountry { a, idx, cd } => {
+                f = "modify_country_data";
+                let a = irs_resolve_acct(*a, &m, &tr);
+                let cur = m.reg.get(&a).map(|x| x.countries.len()).unwrap_or(0);
+                let i = irs_resolve_idx(*idx, cur, del_slot.get(&a).map(|s| s.0));
+                pred = if !cd_valid(cd) {
+                    Err("invalid-metadata")
+                } else if !m.reg.contains_key(&a) {
+                    Err("absent")
+                } else if i as usize >= cur {
+                    Err("index-out-of-range")
+                } else {
+                    Ok(())
+                };
+                at_limit = false;
+                let v = irs_cd(e, cd);
+                let cv = x.canon(&v);
+                res = call(e, &x.c, f, args![e; x.accts[a].clone(), i, v]);
+                effect = IrsEff::ModifyCountry { a, i: i as usize, cv };
+            }
+            IrsOp::DeleteCountry { a, idx } => {
+                f = "delete_country_data";
+                let a = irs_resolve_acct(*a, &m, &tr);
+                let cur = m.reg.get(&a).map(|x| x.countries.len()).unwrap_or(0);
+                let i = irs_resolve_idx(*idx, cur, del_slot.get(&a).map(|s| s.0));
+                pred = if !m.reg.contains_key(&a) {
+                    Err("absent")
+                } else if i as usize >= cur {
+                    Err("index-out-of-range")
+                } else if cur == 1 {
+                    Err("last-country-entry")
+                } else {
+                    Ok(())
+                };
+                at_limit = false;
+                res = call(e, &x.c, f, args![e; x.accts[a].clone(), i]);
+                effect = IrsEff::DeleteCountry { a, i: i as usize, cur };
+            }
+        }
+        ctx.op(res.is_ok());
+        let obs2 = irs_observe(&x);
+        if let Some(cl) = outcome_clause(pred, res.is_ok(), at_limit) {
+            let cl = match (f, cl.as_str()) {
+                ("add_identity", "recovered-account-accepted") => "recovered-account-registered".to_string(),
+                ("recover_identity", "recovered-account-accepted") => "recovered-into-recovered-account".to_string(),
+                _ => cl,
+            };
+            bail!(format!("C20/identity_registry_storage.{f}/{cl}"), "{what}: model says {:?}, call returned {:?}; model before the call: registered {:?}, recovered_to {:?}", pred, res, m.reg.keys().collect::<Vec<_>>(), m.recovered_to);
+        }
+        if res.is_err() {
+            refused += 1;
+            ensure!(irs_canon(&obs2) == irs_canon(&obs), format!("C20/identity_registry_storage.{f}/refused-call-changed-state"), "{what}: refused but the registry changed: {:?} -> {:?}", obs, obs2);
+            match pred {
+                Err("recovered-account") => {
+                    recovered_refusals += 1;
+                    ctx.class(if f == "add_identity" { "irs:add_on_recovered_refused" } else { "irs:recover_into_recovered_refused" });
+                }
+                Err("duplicate") => ctx.class("irs:duplicate_refused"),
+                Err("absent") => ctx.class("irs:absent_refused"),
+                Err("limit") => ctx.class("irs:country_over_limit_refused"),
+                Err("invalid-metadata") => ctx.class("irs:invalid_metadata_refused"),
+                Err("last-country-entry") => ctx.class("irs:delete_last_country_refused"),
+                _ => ctx.class("irs:other_refused"),
+            }
+        } else {
+            match effect {
+                IrsEff::Add { a, ident, org, countries } => {
+                    if m.removed.contains(&a) {
+                        ctx.class("irs:readd_after_removal");
+                    }
+                    m.reg.insert(a, IrsEntry { ident, org, countries });
+                    m.order.push(a);
+                }
+                IrsEff::Remove { a } => {
+                    let p = m.order.iter().position(|q| *q == a);
+                    let len = m.order.len();
+                    m.reg.remove(&a);
+                    m.order.retain(|q| *q != a);
+                    m.removed.insert(a);
+                    del_slot.remove(&a);
+                    match p {
+                        Some(_) if len == 1 => ctx.class("irs:remove_only"),
+                        Some(0) => ctx.class("irs:remove_first"),
+                        Some(p) if p + 1 == len => ctx.class("irs:remove_last"),
+                        _ => ctx.class("irs:remove_middle"),
+                    }
+                    if tr.on_removed(a, p, len) {
+                        ctx.class("irs:remove_middle_then_successor");
+                    }
+                }
+                IrsEff::ModifyIdentity { a, ident } => {
+                    m.reg.get_mut(&a).unwrap().ident = ident;
+                }
+                IrsEff::Recover { old, new } => {
+                    let ent = m.reg.remove(&old).unwrap();
+                    m.reg.insert(new, ent);
+                    for q in m.order.iter_mut() {
+                        if *q == old {
+                            *q = new;
+                        }
+                    }
+                    if let Some(s) = del_slot.remove(&old) {
+                        del_slot.insert(new, s);
+                    }
+                    if m.recovered_to.values().any(|t| *t == old) {
+                        ctx.class("irs:chained_recovery");
+                    }
+                    m.recovered_to.insert(old, new);
+                }
+                IrsEff::AddCountries { a, add } => {
+                    m.reg.get_mut(&a).unwrap().countries.extend(add);
+                }
+                IrsEff::ModifyCountry { a, i, cv } => {
+                    m.reg.get_mut(&a).unwrap().countries[i] = cv;
+                }
+                IrsEff::DeleteCountry { a, i, cur } => {
+                    m.reg.get_mut(&a).unwrap().countries.remove(i);
+                    if let Some((slot, true)) = del_slot.get(&a) {
+                        if *slot == i {
+                            ctx.class("irs:delete_middle_then_successor");
+                        }
+                    }
+                    del_slot.insert(a, (i, i > 0 && i + 1 < cur));
+                    match i {
+                        0 => ctx.class("irs:delete_first_country"),
+                        i if i + 1 == cur => ctx.class("irs:delete_last_index_country"),
+                        _ => ctx.class("irs:delete_middle_country"),
+                    }
+                }
+            }
+            if at_limit {
+                ctx.class("irs:country_at_limit_ok");
+            }
+            if f == "recover_identity" {
+                recovered_ok += 1;
+                ctx.class("irs:recovery_ok");
+            }
+        }
+        // compare as multisets, then adopt the observed enumeration order (order is not asserted)
+        irs_check(&obs2, &m, f)?;
+        for (a, o) in obs2.iter().enumerate() {
+            if let (Some(ent), Some(seen)) = (m.reg.get_mut(&a), o.entries.as_ref()) {
+                ent.countries = seen.clone();
+            }
+        }
+        obs = obs2;
+    }
+    if recovered_ok >= 1 && recovered_refusals >= 1 && refused >= 2 {
+        ctx.nontrivial = true;
+        ctx.class("nontrivial_irs");
+    }
+    Ok(())
+}
+
+// ------------------------------------------------------------------ 4. identity claims
+
+use sha3::{Digest, Keccak256};
+use soroban_sdk::xdr::ToXdr;
+use stellar_tokens::rwa::identity_claims::{self as ic, Claim};
+
+const CL_NI: usize = 5;
+const CL_NT: usize = 3;
+const CL_TOPICS: [u32; CL_NT] = [1, 1000, u32::MAX];
+/// slot = issuer * CL_NT + topic: the (issuer, topic) pairs are the keys of the claim map
+const CL_SLOTS: usize = CL_NI * CL_NT;
+
+#[derive(Clone, Copy, Debug, Serialize, Deserialize, PartialEq, Eq, PartialOrd, Ord)]
+pub struct ClaimBody {
+    pub scheme: u8,
+    pub sig: u8,
+    pub data: u8,
+    pub uri: u8,
+}
+#[derive(Clone, Debug, Serialize, Deserialize)]
+pub enum ClOp {
+    /// add (slot absent) or update in place (slot present)
+    Add { slot: Sel, body: ClaimBody },
+    /// re-add an existing claim with exactly the stored content
+    ReAddSame { slot: Pos },
+    Remove { slot: Sel },
+    /// remove by an id that no (issuer, topic) of the universe hashes to
+    RemoveUnknown(u8),
+    /// script the issuer mock: `is_claim_valid` for a topic passes / panics
+    SetValid { issuer: u8, topic: u8, valid: bool },
+}
+#[derive(Clone, Debug, Serialize, Deserialize)]
+pub struct ClCase {
+    pub ops: Vec<ClOp>,
+}
+fn cl_strategy(_tier: Tier) -> BoxedStrategy<ClCase> {
+    let body = (0u8..3, 0u8..4, 0u8..4, 0u8..3).prop_map(|(scheme, sig, data, uri)| ClaimBody { scheme, sig, data, uri });
+    let op = prop_oneof![
+        10 => (sel_strategy(3, 5, 2), body).prop_map(|(slot, body)| ClOp::Add { slot, body }),
+        1 => pos_strategy().prop_map(|slot| ClOp::ReAddSame { slot }),
+        6 => sel_strategy(8, 1, 2).prop_map(|slot| ClOp::Remove { slot }),
+        1 => any::<u8>().prop_map(ClOp::RemoveUnknown),
+        2 => (0u8..CL_NI as u8, 0u8..CL_NT as u8, proptest::bool::weighted(0.6)).prop_map(|(issuer, topic, valid)| ClOp::SetValid { issuer, topic, valid }),
+    ];
+    proptest::collection::vec(op, 1..=50).prop_map(|ops| ClCase { ops }).boxed()
+}
+
+struct ClX {
+    e: Env,
+    c: Address,
+    issuers: Vec<Address>,
+    /// independently computed claim ids: keccak256(issuer XDR || topic big-endian), per slot
+    ids: Vec<[u8; 32]>,
+}
+impl ClX {
+    fn id(&self, slot: usize) -> BytesN<32> {
+        BytesN::from_array(&self.e, &self.ids[slot])
+    }
+    fn slot_of(&self, id: &BytesN<32>) -> usize {
+        let a = id.to_array();
+        self.ids.iter().position(|x| *x == a).unwrap_or(UNK)
+    }
+    fn claim(&self, slot: usize, b: &ClaimBody) -> Claim {
+        let e = &self.e;
+        let bytes = |k: u8, salt: u8| -> Bytes {
+            match k {
+                0 => Bytes::new(e),
+                1 => Bytes::from_slice(e, &[salt, 1, 2, 3]),
+                2 => Bytes::from_slice(e, &[salt; 64]),
+                _ => Bytes::from_slice(e, &[0xAB; 96]),
+            }
+        };
+        let uri = match b.uri {
+            0 => "",
+            1 => "https://example.com",
+            _ => "ipfs://bafybeigdyrzt5sfp7udm7hu76uh7y26nf3efuylqabf3oclgtqy55fbzdi",
+        };
+        Claim { topic: CL_TOPICS[slot % CL_NT], scheme: b.scheme as u32 + 100, issuer: self.issuers[slot / CL_NT].clone(), signature: bytes(b.sig, 0x51), data: bytes(b.data, 0xDA), uri: SString::from_str(e, uri) }
+    }
+}
+
+#[derive(Clone, Debug, PartialEq)]
+struct ClObs {
+    /// get_claim per slot (None = refused)
+    claims: Vec<Option<Claim>>,
+    unknown_id: Option<Claim>,
+    /// get_claim_ids_by_topic per topic, as slots in enumeration order
+    by_topic: Vec<Option<Vec<usize>>>,
+    other_topic: Option<Vec<usize>>,
+}
+fn cl_observe(x: &ClX) -> ClObs {
+    let e = &x.e;
+    e.as_contract(&x.c, || {
+        let claims = (0..CL_SLOTS).map(|s| guarded(|| ic::get_claim(e, &x.id(s)))).collect();
+        let unknown_id = guarded(|| ic::get_claim(e, &BytesN::from_array(e, &[0x77; 32])));
+        let conv = |v: SVec<BytesN<32>>| -> Vec<usize> { v.iter().map(|id| x.slot_of(&id)).collect() };
+        let by_topic = CL_TOPICS.iter().map(|t| guarded(|| ic::get_claim_ids_by_topic(e, *t)).map(conv)).collect();
+        let other_topic = guarded(|| ic::get_claim_ids_by_topic(e, 31337)).map(conv);
+        ClObs { claims, unknown_id, by_topic, other_topic }
+    })
+}
+fn cl_canon(o: &ClObs) -> (Vec<Option<Claim>>, bool, Vec<Option<Vec<usize>>>, Option<Vec<usize>>) {
+    (o.claims.clone(), o.unknown_id.is_some(), o.by_topic.iter().map(|v| v.as_ref().map(|v| sorted(v))).collect(), o.other_topic.clone())
+}
+fn cl_check(o: &ClObs, m: &BTreeMap<usize, ClaimBody>, x: &ClX, f: &str) -> R {
+    let sig = |clause: &str| format!("C20/identity_claims.{f}/{clause}");
+    for s in 0..CL_SLOTS {
+        let want = m.get(&s).map(|b| x.claim(s, b));
+        ensure!(o.claims[s] == want, sig("get_claim-mismatch"), "get_claim(id of issuer #{}, topic #{}) = {:?}, model {:?} (None = refused)", s / CL_NT, s % CL_NT, o.claims[s], want);
+    }
+    ensure!(o.unknown_id.is_none(), sig("get_claim-unknown-id-answered"), "get_claim(0x77..77) = {:?}", o.unknown_id);
+    for t in 0..CL_NT {
+        let want: Vec<usize> = m.keys().copied().filter(|s| s % CL_NT == t).collect();
+        // every id exactly once; documented: empty vector for a topic without claims
+        ensure!(o.by_topic[t].as_ref().map(|v| sorted(v)) == Some(want.clone()), sig("get_claim_ids_by_topic-mismatch"), "get_claim_ids_by_topic(topic #{t}) = {:?} (as issuer*{CL_NT}+topic slots), model {:?}", o.by_topic[t], want);
+    }
+    ensure!(o.other_topic == Some(vec![]), sig("get_claim_ids_by_topic-mismatch"), "get_claim_ids_by_topic(31337) = {:?}, model []", o.other_topic);
+    Ok(())
+}
+
+pub fn run_claims(case: &ClCase, ctx: &mut Ctx) -> R {
+    let e = new_env();
+    let c = e.register(Ident, ());
+    let issuers: Vec<Address> = (0..CL_NI).map(|_| e.register(IssuerMock, ())).collect();
+    let ids: Vec<[u8; 32]> = (0..CL_SLOTS)
+        .map(|s| {
+            let mut h = Keccak256::new();
+            let xdr: Vec<u8> = issuers[s / CL_NT].clone().to_xdr(&e).iter().collect();
+            h.update(&xdr);
+            h.update(CL_TOPICS[s % CL_NT].to_be_bytes());
+            h.finalize().into()
+        })
+        .collect();
+    let x = ClX { e, c, issuers, ids };
+    let e = &x.e;
+    let mut m: BTreeMap<usize, ClaimBody> = BTreeMap::new();
+    let mut invalid: BTreeSet<(usize, usize)> = BTreeSet::new();
+    let mut tr = Track::default();
+    let mut obs = cl_observe(&x);
+    cl_check(&obs, &m, &x, "initial")?;
+    let (mut updated, mut last_of_topic, mut refused, mut shared_topic) = (0u32, 0u32, 0u32, false);
+
+    for (step, op) in case.ops.iter().enumerate() {
+        let what = format!("step {step} {:?}", op);
+        // enumeration order of the present claims: the per-topic id lists, concatenated
+        let order: Vec<usize> = obs.by_topic.iter().flat_map(|v| v.clone().unwrap_or_default()).filter(|s| *s != UNK).collect();
+        let f: &str;
+        let was_refused;
+        match op {
+            ClOp::SetValid { issuer, topic, valid } => {
+                f = "set_valid";
+                let (i, t) = (*issuer as usize % CL_NI, *topic as usize % CL_NT);
+                let r = call(e, &x.issuers[i], "set_valid", args![e; CL_TOPICS[t], *valid]);
+                ensure!(r.is_ok(), "C20/identity_claims.setup/issuer-mock", "{what}: {:?}", r);
+                if *valid {
+                    invalid.remove(&(i, t));
+                } else {
+                    invalid.insert((i, t));
+                }
+                was_refused = false;
+            }
+            ClOp::Add { .. } | ClOp::ReAddSame { .. } => {
+                f = "add_claim";
+                let (slot, body) = match op {
+                    ClOp::Add { slot, body } => (resolve(*slot, &order, CL_SLOTS, &tr), *body),
+                    ClOp::ReAddSame { slot } => {
+                        let s = resolve(Sel::Existing(*slot), &order, CL_SLOTS, &tr);
+                        (s, m.get(&s).copied().unwrap_or(ClaimBody { scheme: 0, sig: 1, data: 1, uri: 1 }))
+                    }
+                    _ => unreachable!(),
+                };
+                let cl = x.claim(slot, &body);
+                let pred: Result<(), &'static str> = if invalid.contains(&(slot / CL_NT, slot % CL_NT)) { Err("issuer-rejects-claim") } else { Ok(()) };
+                let r = envx::call_t::<BytesN<32>>(e, &x.c, f, args![e; cl.topic, cl.scheme, cl.issuer.clone(), cl.signature.clone(), cl.data.clone(), cl.uri.clone()]);
+                ctx.op(r.is_ok());
+                if let Some(clause) = outcome_clause(pred, r.is_ok(), false) {
+                    bail!(format!("C20/identity_claims.add_claim/{clause}"), "{what}: add_claim(issuer #{}, topic #{}) model says {:?}, call returned {:?}", slot / CL_NT, slot % CL_NT, pred, r.as_ref().map(|_| "id"));
+                }
+                match r {
+                    Ok(id) => {
+                        ensure!(id.to_array() == x.ids[slot], "C20/identity_claims.add_claim/claim-id-not-keccak-issuer-topic", "{what}: returned id {:?}, keccak256(issuer || topic) = {:?}", id.to_array(), x.ids[slot]);
+                        match m.get(&slot) {
+                            Some(old) if *old != body => {
+                                updated += 1;
+                                ctx.class("claims:update_in_place");
+                            }
+                            Some(_) => ctx.class("claims:readd_identical"),
+                            None => {
+                                ctx.class("claims:add_new");
+                                if tr.removed.contains(&slot) {
+                                    ctx.class("claims:readd_after_removal");
+                                }
+                                if m.keys().any(|s| s % CL_NT == slot % CL_NT) {
+                                    shared_topic = true;
+                                }
+                            }
+                        }
+                        m.insert(slot, body);
+                        was_refused = false;
+                    }
+                    Err(_) => {
+                        ctx.class("claims:issuer_rejects_refused");
+                        was_refused = true;
+                    }
+                }
+            }
+            ClOp::Remove { .. } | ClOp::RemoveUnknown(_) => {
+                f = "remove_claim";
+                let (slot, id) = match op {
+                    ClOp::Remove { slot } => {
+                        let s = resolve(*slot, &order, CL_SLOTS, &tr);
+                        (Some(s), x.id(s))
+                    }
+                    ClOp::RemoveUnknown(k) => (None, BytesN::from_array(e, &[*k; 32])),
+                    _ => unreachable!(),
+                };
+                let present = slot.map(|s| m.contains_key(&s)).unwrap_or(false);
+                let pred: Result<(), &'static str> = if present { Ok(()) } else { Err("absent") };
+                let r = call(e, &x.c, f, args![e; id]);
+                ctx.op(r.is_ok());
+                if let Some(clause) = outcome_clause(pred, r.is_ok(), false) {
+                    bail!(format!("C20/identity_claims.remove_claim/{clause}"), "{what}: remove_claim(slot {:?}) model present = {present}, call returned {:?}", slot, r);
+                }
+                if present {
+                    let s = slot.unwrap();
+                    m.remove(&s);
+                    let t = s % CL_NT;
+                    let tl = obs.by_topic[t].clone().unwrap_or_default();
+                    let pt = tl.iter().position(|q| *q == s);
+                    if m.keys().all(|q| q % CL_NT != t) {
+                        last_of_topic += 1;
+                        ctx.class("claims:last_claim_of_topic_removed");
+                    }
+                    match pt {
+                        Some(_) if tl.len() == 1 => ctx.class("claims:remove_only_of_topic"),
+                        Some(0) => ctx.class("claims:remove_first_of_topic"),
+                        Some(p) if p + 1 == tl.len() => ctx.class("claims:remove_last_of_topic"),
+                        _ => ctx.class("claims:remove_middle_of_topic"),
+                    }
+                    // Track works on the concatenated order; "middle" is judged inside the topic's own list
+                    let p = order.iter().position(|q| *q == s);
+                    let hit = tr.on_removed(s, p, order.len());
+                    if !matches!(pt, Some(q) if q > 0 && q + 1 < tl.len()) {
+                        tr.mid_pos = None;
+                    }
+                    if hit {
+                        ctx.class("claims:remove_middle_then_successor");
+                    }
+                    was_refused = false;
+                } else {
+                    ctx.class("claims:absent_remove_refused");
+                    was_refused = true;
+                }
+            }
+        }
+        let obs2 = cl_observe(&x);
+        if was_refused {
+            refused += 1;
+            ensure!(cl_canon(&obs2) == cl_canon(&obs), format!("C20/identity_claims.{f}/refused-call-changed-state"), "{what}: refused but the claim store changed: {:?} -> {:?}", obs, obs2);
+        }
+        cl_check(&obs2, &m, &x, f)?;
+        obs = obs2;
+    }
+    if updated >= 1 && last_of_topic >= 1 && shared_topic && refused >= 1 {
+        ctx.nontrivial = true;
+        ctx.class("nontrivial_claims");
+    }
+    Ok(())
+}
+
+// ------------------------------------------------------------------ property
 
 pub fn property() -> Property {
-    Property { id: "C20", rule: "", subs: vec![], floors: vec![], assumptions: vec![] }
+    let mut subs: Vec<Box<dyn SubCheck>> = vec![
+        gen_sub::<CtiCase>("cti", 400, 6000, cti_strategy, run_cti),
+        gen_sub::<IkCase>("issuer-keys", 400, 6000, ik_strategy, run_issuer_keys),
+        gen_sub::<IrsCase>("irs", 400, 6000, irs_strategy, run_irs),
+        gen_sub::<ClCase>("claims", 400, 6000, cl_strategy, run_claims),
+    ];
+    subs.extend(super::c20b::subs());
+    Property {
+        id: "C20",
+        rule: "one sub-check per registry; case = history of <= 50 add / remove / update / batch operations over a universe of 4-8 keys chosen by state-relative selectors \
+               (Existing(first|last|element now in the slot of the last removal|only-or-middle|i), Absent, RemovedBefore), 1 case in 6 a capacity scenario that pre-fills to limit-d (d in 0..3) and \
+               then probes limit and limit+1; after EVERY step every getter is evaluated for every universe element (present or not; index access 0..count and one past) and compared with a reference \
+               set/map (lists as sorted multisets, never order). non-trivial: cti = a successful edit touching both directions of the topic/issuer relation (remove a topic some issuer holds, remove an \
+               issuer that holds topics, update that both adds and drops topics) and a refused call; issuer-keys = a removal after which the key leaves a topic's key list while other keys or pairs \
+               remain, and a refused call; irs = a successful recover_identity, a later refused add_identity / recover-into on a recovered account, and >= 2 refused calls; claims = an in-place update \
+               with different content, a topic holding >= 2 claims, removal of the last claim of a topic, and a refused call. distinct = distinct serialised case. Sub-checks of the second half: see c20b",
+        subs,
+        floors: vec![
+            ("nontrivial_cti", 25, 250),
+            ("cti:add_at_limit_ok", 5, 50),
+            ("cti:add_over_limit_refused", 5, 50),
+            ("cti:duplicate_add_refused", 35, 350),
+            ("cti:remove_topic_held_by_issuers", 30, 300),
+            ("cti:remove_issuer_with_topics", 39, 390),
+            ("cti:update_adds_and_drops_topics", 10, 100),
+            ("cti:remove_middle_then_successor", 3, 30),
+            ("nontrivial_keys", 25, 250),
+            ("keys:allow_at_limit_ok", 5, 50),
+            ("keys:allow_over_limit_refused", 5, 50),
+            ("keys:duplicate_allow_refused", 40, 400),
+            ("keys:key_leaves_topic_keeps_other_pairs", 35, 350),
+            ("keys:remove_middle_then_successor", 12, 120),
+            ("nontrivial_irs", 18, 180),
+            ("irs:country_at_limit_ok", 14, 140),
+            ("irs:country_over_limit_refused", 29, 290),
+            ("irs:add_on_recovered_refused", 32, 320),
+            ("irs:recover_into_recovered_refused", 15, 150),
+            ("irs:delete_middle_then_successor", 3, 30),
+            ("nontrivial_claims", 24, 240),
+            ("claims:update_in_place", 120, 1200),
+            ("claims:last_claim_of_topic_removed", 90, 900),
+            ("claims:remove_middle_then_successor", 1, 15),
+        ],
+        assumptions: vec![
+            "Soroban native test host is trusted (rollback of refused invocations, storage); per-invocation resource limits and host diagnostics are switched off (only the library's explicit capacity counters are C20's subject)",
+            "authorization is not C20's subject: the harness entry points forward to the library functions without require_auth (operator arguments ignored)",
+            "mutations are real top-level invocations; getters are the library's public getter functions called inside one as_contract frame per step, a getter panic being observed as 'refused'",
+            "enumeration order is never asserted; get_registries may answer one registry per (topic, registry) pair or each registry once; a recovered account = one carrying a recovered_to link (error docs of add_identity / recover_identity)",
+            "identity_claims: whether the emptied topic index key is deleted or holds an empty vector is not observable through the getters and is not asserted",
+        ],
+    }
 }
